@@ -188,6 +188,8 @@ static void F(const std::string &name, std::vector<int> in, int nout, CF c, KF k
 struct CoreRefusal : public SymEngineException {
     CoreRefusal() : SymEngineException("documented: error code expected") {}
 };
+struct Undecided {
+};
 static std::string its(long long v)
 {
     return std::to_string(v);
@@ -209,4 +211,2262 @@ static RCP<const Set> SETP(const B &b)
     return rcp_static_cast<const Set>(b);
 }
 
-#include "C42_menu.inc"
+
+#define UN(nm, d2)                                                                                                      \
+    F("basic_" #nm, {ANY}, 1, [](basic_struct **o, basic_struct **i, XS &) { return (int)basic_##nm(o[0], i[0]); },      \
+      [](std::vector<B> &o, const std::vector<B> &i, XS &) { o[0] = SymEngine::nm(i[0]); }, d2)
+#define BIN(nm, d2)                                                                                                     \
+    F("basic_" #nm, {ANY, ANY}, 1,                                                                                      \
+      [](basic_struct **o, basic_struct **i, XS &) { return (int)basic_##nm(o[0], i[0], i[1]); },                       \
+      [](std::vector<B> &o, const std::vector<B> &i, XS &) { o[0] = SymEngine::nm(i[0], i[1]); }, d2)
+#define CONSTF(cfn, coreexpr)                                                                                           \
+    F(#cfn, {}, 1,                                                                                                      \
+      [](basic_struct **o, basic_struct **, XS &) {                                                                     \
+          cfn(o[0]);                                                                                                    \
+          return 0;                                                                                                     \
+      },                                                                                                                \
+      [](std::vector<B> &o, const std::vector<B> &, XS &) { o[0] = coreexpr; })
+#define STRF(cfn, coreexpr)                                                                                             \
+    F(#cfn, {ANY}, 0,                                                                                                   \
+      [](basic_struct **, basic_struct **i, XS &x) {                                                                    \
+          char *p = cfn(i[0]);                                                                                          \
+          if (!p)                                                                                                       \
+              return (int)SYMENGINE_RUNTIME_ERROR;                                                                      \
+          x.push_back(take(p));                                                                                         \
+          return 0;                                                                                                     \
+      },                                                                                                                \
+      [](std::vector<B> &, const std::vector<B> &i, XS &x) { x.push_back(coreexpr); }, true)
+#define PRED(cfn, cls, coreexpr)                                                                                        \
+    F(#cfn, {cls}, 0,                                                                                                   \
+      [](basic_struct **, basic_struct **i, XS &x) {                                                                    \
+          x.push_back(its(::cfn(i[0])));                                                                                \
+          return 0;                                                                                                     \
+      },                                                                                                                \
+      [](std::vector<B> &, const std::vector<B> &i, XS &x) {                                                            \
+          const Basic &e = *i[0];                                                                                       \
+          (void)e;                                                                                                      \
+          x.push_back(its((coreexpr) ? 1 : 0));                                                                         \
+      })
+#define INT2(cfn, corefn)                                                                                               \
+    F(#cfn, {INT, INT}, 1, [](basic_struct **o, basic_struct **i, XS &) { return (int)cfn(o[0], i[0], i[1]); },         \
+      [](std::vector<B> &o, const std::vector<B> &i, XS &) { o[0] = SymEngine::corefn(INTG(i[0]), INTG(i[1])); })
+#define SET2(cfn, method)                                                                                               \
+    F(#cfn, {SET, SET}, 1, [](basic_struct **o, basic_struct **i, XS &) { return (int)cfn(o[0], i[0], i[1]); },         \
+      [](std::vector<B> &o, const std::vector<B> &i, XS &) { o[0] = SETP(i[0])->method(SETP(i[1])); }, true)
+#define SETP2(cfn, method)                                                                                              \
+    F(#cfn, {SET, SET}, 0,                                                                                              \
+      [](basic_struct **, basic_struct **i, XS &x) {                                                                    \
+          x.push_back(its(cfn(i[0], i[1]) ? 1 : 0));                                                                    \
+          return 0;                                                                                                     \
+      },                                                                                                                \
+      [](std::vector<B> &, const std::vector<B> &i, XS &x) { x.push_back(its(SETP(i[0])->method(SETP(i[1])) ? 1 : 0)); })
+#define SET1(cfn, corefn)                                                                                               \
+    F(#cfn, {SET}, 1, [](basic_struct **o, basic_struct **i, XS &) { return (int)cfn(o[0], i[0]); },                    \
+      [](std::vector<B> &o, const std::vector<B> &i, XS &) { o[0] = SymEngine::corefn(*SETP(i[0])); }, true)
+
+static const char *PARSE_STR[] = {"x+y",   "2*x**2", "x^2",  "sin(x)/0", "1/0",    "(x",     "x+",  "",        "1e400", "f(x, y)",
+                                  "3 @ 4",  "0**-1", "oo - oo",  "sqrt(-4)", "x = = y", "1.5", "pi*I", "[1]",  "x y"};
+static const long LV[] = {0, 1, -1, 2, 4, -6, 3, LONG_MAX, LONG_MIN};
+static const unsigned long ULV[] = {0, 1, 2, 4, 6, 3, ULONG_MAX};
+static const char *INTSTR[] = {"0", "-12", "123456789012345678901234567890", "abc", "", "12x", "+5", " 7", "0x10", "1.5"};
+static const double DV[] = {0.0, -0.0, 1.5, -2.25, 1e308, 5e-324, INFINITY, -INFINITY, NAN};
+static const char *SYMN[] = {"x", "y", "", "a b", "x1", "pi", "I", "\xce\xb1"};
+
+static void build_menu()
+{
+    // ---- one-argument functions basic -> basic (45)
+    UN(expand, true);
+    UN(neg, true);
+    UN(abs, true);
+    UN(erf, false);
+    UN(erfc, false);
+    UN(sin, true);
+    UN(cos, true);
+    UN(tan, false);
+    UN(asin, false);
+    UN(acos, false);
+    UN(atan, false);
+    UN(csc, false);
+    UN(sec, false);
+    UN(cot, false);
+    UN(acsc, false);
+    UN(asec, false);
+    UN(acot, false);
+    UN(sinh, false);
+    UN(cosh, false);
+    UN(tanh, false);
+    UN(asinh, false);
+    UN(acosh, false);
+    UN(atanh, false);
+    UN(csch, false);
+    UN(sech, false);
+    UN(coth, false);
+    UN(acsch, false);
+    UN(asech, false);
+    UN(acoth, false);
+    UN(lambertw, false);
+    UN(zeta, false);
+    UN(dirichlet_eta, false);
+    UN(gamma, false);
+    UN(loggamma, false);
+    UN(sqrt, true);
+    UN(cbrt, false);
+    UN(exp, true);
+    UN(log, true);
+    UN(floor, true);
+    UN(ceiling, false);
+    UN(sign, true);
+    // ---- two-argument functions
+    BIN(add, true);
+    BIN(sub, true);
+    BIN(mul, true);
+    BIN(div, true);
+    BIN(pow, true);
+    BIN(atan2, false);
+    BIN(kronecker_delta, false);
+    BIN(lowergamma, false);
+    BIN(uppergamma, false);
+    BIN(beta, false);
+    BIN(polygamma, false);
+    F("basic_diff", {ANY, ANY}, 1, [](basic_struct **o, basic_struct **i, XS &) { return (int)basic_diff(o[0], i[0], i[1]); },
+      [](std::vector<B> &o, const std::vector<B> &i, XS &) {
+          if (!is_a<Symbol>(*i[1]))
+              throw CoreRefusal(); // documented: returns an error code for a non-symbol
+          o[0] = i[0]->diff(rcp_static_cast<const Symbol>(i[1]));
+      },
+      true);
+    F("basic_eq", {ANY, ANY}, 0,
+      [](basic_struct **, basic_struct **i, XS &x) {
+          x.push_back(its(basic_eq(i[0], i[1])));
+          return 0;
+      },
+      [](std::vector<B> &, const std::vector<B> &i, XS &x) { x.push_back(its(eq(*i[0], *i[1]) ? 1 : 0)); }, true);
+    F("basic_neq", {ANY, ANY}, 0,
+      [](basic_struct **, basic_struct **i, XS &x) {
+          x.push_back(its(basic_neq(i[0], i[1])));
+          return 0;
+      },
+      [](std::vector<B> &, const std::vector<B> &i, XS &x) { x.push_back(its(neq(*i[0], *i[1]) ? 1 : 0)); }, true);
+    F("basic_has_symbol", {ANY, SYM}, 0,
+      [](basic_struct **, basic_struct **i, XS &x) {
+          x.push_back(its(basic_has_symbol(i[0], i[1])));
+          return 0;
+      },
+      [](std::vector<B> &, const std::vector<B> &i, XS &x) {
+          set_basic fs = free_symbols(*i[0]);
+          bool f = false;
+          for (auto &s : fs)
+              if (kk(s) == kk(i[1]))
+                  f = true;
+          x.push_back(its(f));
+      },
+      true);
+    F("basic_assign", {ANY}, 1, [](basic_struct **o, basic_struct **i, XS &) { return (int)basic_assign(o[0], i[0]); },
+      [](std::vector<B> &o, const std::vector<B> &i, XS &) { o[0] = i[0]; });
+    F("basic_get_type", {ANY}, 0,
+      [](basic_struct **, basic_struct **i, XS &x) {
+          x.push_back(its((int)basic_get_type(i[0])));
+          char *n = basic_get_class_from_id(basic_get_type(i[0]));
+          x.push_back(its((int)basic_get_class_id(n)));
+          x.push_back(take(n));
+          return 0;
+      },
+      [](std::vector<B> &, const std::vector<B> &i, XS &x) {
+          x.push_back(its((int)i[0]->get_type_code()));
+          x.push_back(its((int)i[0]->get_type_code()));
+          x.push_back(type_code_name(i[0]->get_type_code()));
+      });
+    F("basic_hash", {ANY}, 0,
+      [](basic_struct **, basic_struct **i, XS &x) {
+          x.push_back(uts(basic_hash(i[0])));
+          return 0;
+      },
+      [](std::vector<B> &, const std::vector<B> &i, XS &x) { x.push_back(uts(i[0]->hash())); });
+    // ---- predicates (oracle: RTTI / exact type, not the library's is_a helpers)
+    PRED(is_a_Number, ANY, dynamic_cast<const Number *>(&e) != nullptr);
+    PRED(is_a_Integer, ANY, typeid(e) == typeid(Integer));
+    PRED(is_a_Rational, ANY, typeid(e) == typeid(Rational));
+    PRED(is_a_Symbol, ANY, typeid(e) == typeid(Symbol));
+    PRED(is_a_Complex, ANY, typeid(e) == typeid(Complex));
+    PRED(is_a_RealDouble, ANY, typeid(e) == typeid(RealDouble));
+    PRED(is_a_ComplexDouble, ANY, typeid(e) == typeid(ComplexDouble));
+    PRED(is_a_RealMPFR, ANY, false);
+    PRED(is_a_ComplexMPC, ANY, false);
+    PRED(is_a_Set, ANY, dynamic_cast<const Set *>(&e) != nullptr);
+    PRED(number_is_zero, NUM, down_cast<const Number &>(e).is_zero());
+    PRED(number_is_negative, NUM, down_cast<const Number &>(e).is_negative());
+    PRED(number_is_positive, NUM, down_cast<const Number &>(e).is_positive());
+    PRED(number_is_complex, NUM, down_cast<const Number &>(e).is_complex());
+    // ---- printers: nullptr iff the core printer throws
+    STRF(basic_str, i[0]->__str__());
+    STRF(basic_str_julia, julia_str(*i[0]));
+    STRF(basic_str_mathml, mathml(*i[0]));
+    STRF(basic_str_latex, latex(*i[0]));
+    STRF(basic_str_ccode, ccode(*i[0]));
+    STRF(basic_str_cudacode, cudacode(*i[0]));
+    STRF(basic_str_metalcode, metalcode(*i[0]));
+    STRF(basic_str_jscode, jscode(*i[0]));
+    for (int prec = -1; prec < 3; prec++) {
+        F("basic_str_*code_settings[" + its(prec) + "]", {ANY}, 0,
+          [prec](basic_struct **, basic_struct **i, XS &x) {
+              BasicCodePrinterSettings *st = nullptr;
+              if (prec >= 0) {
+                  st = basic_code_printer_settings_new();
+                  basic_code_printer_settings_set_precision(st, (BasicCodePrinterPrecision)prec);
+              }
+              char *a = basic_str_ccode_settings(i[0], st), *b = basic_str_cudacode_settings(i[0], st),
+                   *c = basic_str_metalcode_settings(i[0], st);
+              if (st)
+                  basic_code_printer_settings_free(st);
+              if (!a && !b && !c)
+                  return (int)SYMENGINE_RUNTIME_ERROR;
+              x.push_back(take(a));
+              x.push_back(take(b));
+              x.push_back(take(c));
+              return 0;
+          },
+          [prec](std::vector<B> &, const std::vector<B> &i, XS &x) {
+              CodePrinterPrecision p = prec == 1 ? CodePrinterPrecision::Float
+                                                 : prec == 2 ? CodePrinterPrecision::Half : CodePrinterPrecision::Double;
+              int thrown = 0;
+              auto one = [&](const std::function<std::string()> &f) {
+                  try {
+                      x.push_back(f());
+                  } catch (SymEngineException &) {
+                      x.push_back("<nullptr>");
+                      thrown++;
+                  }
+              };
+              one([&] { return ccode(*i[0], p); });
+              one([&] { return cudacode(*i[0], p); });
+              one([&] { return metalcode(*i[0], p); });
+              if (thrown == 3)
+                  throw CoreRefusal();
+          });
+    }
+    // ---- serialisation
+    F("basic_dumps+basic_loads", {ANY}, 1,
+      [](basic_struct **o, basic_struct **i, XS &x) {
+          unsigned long n = 0;
+          char *p = basic_dumps(i[0], &n);
+          if (!p)
+              return (int)SYMENGINE_RUNTIME_ERROR;
+          x.push_back(std::string(p, n));
+          int rc = basic_loads(o[0], p, n);
+          basic_str_free(p);
+          return rc;
+      },
+      [](std::vector<B> &o, const std::vector<B> &i, XS &x) {
+          x.push_back(i[0]->dumps());
+          o[0] = i[0];
+      },
+      true);
+    for (const char *s : {"", "garbage", "\x01\x02\x03\x04\x05\x06\x07\x08"}) {
+        std::string str(s);
+        F("basic_loads[" + jstr(str) + "]", {}, 1,
+          [str](basic_struct **o, basic_struct **, XS &) { return (int)basic_loads(o[0], str.data(), str.size()); },
+          [str](std::vector<B> &o, const std::vector<B> &, XS &) { o[0] = Basic::loads(str); });
+    }
+    // ---- constant setters
+    CONSTF(basic_const_zero, integer(0));
+    CONSTF(basic_const_one, integer(1));
+    CONSTF(basic_const_minus_one, integer(-1));
+    CONSTF(basic_const_I, Complex::from_two_nums(*integer(0), *integer(1)));
+    CONSTF(basic_const_pi, constant("pi"));
+    CONSTF(basic_const_E, constant("E"));
+    CONSTF(basic_const_EulerGamma, constant("EulerGamma"));
+    CONSTF(basic_const_Catalan, constant("Catalan"));
+    CONSTF(basic_const_GoldenRatio, constant("GoldenRatio"));
+    CONSTF(basic_const_infinity, Infty::from_int(1));
+    CONSTF(basic_const_neginfinity, Infty::from_int(-1));
+    CONSTF(basic_const_complex_infinity, Infty::from_int(0));
+    CONSTF(basic_const_nan, Nan);
+    CONSTF(bool_set_true, boolean(true));
+    CONSTF(bool_set_false, boolean(false));
+    CONSTF(basic_set_emptyset, emptyset());
+    CONSTF(basic_set_universalset, universalset());
+    CONSTF(basic_set_complexes, complexes());
+    CONSTF(basic_set_reals, reals());
+    CONSTF(basic_set_rationals, rationals());
+    CONSTF(basic_set_integers, integers());
+    for (const char *s : {"foo", "pi", ""}) {
+        std::string str(s);
+        F("basic_const_set[" + str + "]", {}, 1,
+          [str](basic_struct **o, basic_struct **, XS &) {
+              basic_const_set(o[0], str.c_str());
+              return 0;
+          },
+          [str](std::vector<B> &o, const std::vector<B> &, XS &) { o[0] = constant(str); });
+    }
+    for (const char *s : SYMN) {
+        std::string str(s);
+        F("symbol_set[" + jstr(str) + "]", {}, 1, [str](basic_struct **o, basic_struct **, XS &) { return (int)symbol_set(o[0], str.c_str()); },
+          [str](std::vector<B> &o, const std::vector<B> &, XS &) { o[0] = symbol(str); });
+    }
+    for (const char *s : PARSE_STR) {
+        std::string str(s);
+        F("basic_parse[" + jstr(str) + "]", {}, 1, [str](basic_struct **o, basic_struct **, XS &) { return (int)basic_parse(o[0], str.c_str()); },
+          [str](std::vector<B> &o, const std::vector<B> &, XS &) { o[0] = parse(str); });
+        for (int flag : {1, 0, -1, 2})
+            F("basic_parse2[" + jstr(str) + "," + its(flag) + "]", {}, 1,
+              [str, flag](basic_struct **o, basic_struct **, XS &) { return (int)basic_parse2(o[0], str.c_str(), flag); },
+              [str, flag](std::vector<B> &o, const std::vector<B> &, XS &) { o[0] = parse(str, flag > 0); }); // "> 0 default, <= 0 otherwise"
+    }
+    // ---- number setters/getters
+    for (long v : LV) {
+        F("integer_set_si[" + its(v) + "]", {}, 1, [v](basic_struct **o, basic_struct **, XS &) { return (int)integer_set_si(o[0], v); },
+          [v](std::vector<B> &o, const std::vector<B> &, XS &) { o[0] = integer(integer_class(mpz_class(v).get_str())); });
+        for (long w : LV)
+            F("rational_set_si[" + its(v) + "," + its(w) + "]", {}, 1,
+              [v, w](basic_struct **o, basic_struct **, XS &) { return (int)rational_set_si(o[0], v, w); },
+              [v, w](std::vector<B> &o, const std::vector<B> &, XS &) {
+                  o[0] = Rational::from_two_ints(*integer(integer_class(mpz_class(v).get_str())), *integer(integer_class(mpz_class(w).get_str())));
+              });
+    }
+    for (unsigned long v : ULV) {
+        F("integer_set_ui[" + uts(v) + "]", {}, 1, [v](basic_struct **o, basic_struct **, XS &) { return (int)integer_set_ui(o[0], v); },
+          [v](std::vector<B> &o, const std::vector<B> &, XS &) { o[0] = integer(integer_class(mpz_class(v).get_str())); });
+        for (unsigned long w : ULV)
+            F("rational_set_ui[" + uts(v) + "," + uts(w) + "]", {}, 1,
+              [v, w](basic_struct **o, basic_struct **, XS &) { return (int)rational_set_ui(o[0], v, w); },
+              [v, w](std::vector<B> &o, const std::vector<B> &, XS &) {
+                  o[0] = Rational::from_two_ints(*integer(integer_class(mpz_class(v).get_str())), *integer(integer_class(mpz_class(w).get_str())));
+              });
+    }
+    for (const char *s : INTSTR) {
+        std::string str(s);
+        F("integer_set_str[" + jstr(str) + "]", {}, 1, [str](basic_struct **o, basic_struct **, XS &) { return (int)integer_set_str(o[0], str.c_str()); },
+          [str](std::vector<B> &o, const std::vector<B> &, XS &) {
+              mpz_class z;
+              if (z.set_str(str, 10) != 0)
+                  throw Undecided(); // not a decimal integer: the header documents nothing; counted, not judged
+              o[0] = integer(integer_class(z.get_str()));
+          });
+    }
+    for (double d : DV)
+        F("real_double_set_d[" + hexd(d) + "]", {}, 1, [d](basic_struct **o, basic_struct **, XS &) { return (int)real_double_set_d(o[0], d); },
+          [d](std::vector<B> &o, const std::vector<B> &, XS &) { o[0] = real_double(d); });
+    F("integer_set_mpz(integer_get_mpz)", {INT}, 1,
+      [](basic_struct **o, basic_struct **i, XS &x) {
+          mpz_t z;
+          mpz_init(z);
+          int rc = integer_get_mpz(z, i[0]);
+          x.push_back(mpz_class(z).get_str());
+          if (rc == 0)
+              rc = integer_set_mpz(o[0], z);
+          mpz_clear(z);
+          return rc;
+      },
+      [](std::vector<B> &o, const std::vector<B> &i, XS &x) {
+          x.push_back(mpz_of(i[0]).get_str());
+          o[0] = i[0];
+      });
+    F("integer_get_si/ui", {INT}, 0,
+      [](basic_struct **, basic_struct **i, XS &x) {
+          x.push_back(its(integer_get_si(i[0])));
+          x.push_back(uts(integer_get_ui(i[0])));
+          return 0;
+      },
+      [](std::vector<B> &, const std::vector<B> &i, XS &x) {
+          mpz_class z = mpz_of(i[0]);
+          // documented range only; outside it GMP semantics (low bits of |z| with the sign) are the model
+          mpz_class a = abs(z);
+          unsigned long lo = mpz_get_ui(a.get_mpz_t());
+          long si = z.fits_slong_p() ? z.get_si() : (sgn(z) < 0 ? -(long)(lo & (unsigned long)LONG_MAX) : (long)(lo & (unsigned long)LONG_MAX));
+          x.push_back(its(si));
+          x.push_back(uts(lo));
+      });
+    F("rational_set_mpq(rational_get_mpq)", {RAT}, 1,
+      [](basic_struct **o, basic_struct **i, XS &x) {
+          mpq_t q;
+          mpq_init(q);
+          int rc = rational_get_mpq(q, i[0]);
+          x.push_back(mpq_class(q).get_str());
+          if (rc == 0)
+              rc = rational_set_mpq(o[0], q);
+          mpq_clear(q);
+          return rc;
+      },
+      [](std::vector<B> &o, const std::vector<B> &i, XS &x) {
+          x.push_back(to_mpq(down_cast<const Rational &>(*i[0]).as_rational_class()).get_str());
+          o[0] = i[0];
+      });
+    F("complex_set_mpq[1/2,-3/4]", {}, 1,
+      [](basic_struct **o, basic_struct **, XS &) {
+          mpq_class a(1, 2), b(-3, 4);
+          return (int)complex_set_mpq(o[0], a.get_mpq_t(), b.get_mpq_t());
+      },
+      [](std::vector<B> &o, const std::vector<B> &, XS &) {
+          o[0] = Complex::from_two_nums(*Rational::from_two_ints(1, 2), *Rational::from_two_ints(-3, 4));
+      });
+    F("complex_set_mpq[2,0]", {}, 1,
+      [](basic_struct **o, basic_struct **, XS &) {
+          mpq_class a(2), b(0);
+          return (int)complex_set_mpq(o[0], a.get_mpq_t(), b.get_mpq_t());
+      },
+      [](std::vector<B> &o, const std::vector<B> &, XS &) { o[0] = integer(2); });
+    F("real_double_get_d", {RDBL}, 0,
+      [](basic_struct **, basic_struct **i, XS &x) {
+          x.push_back(hexd(real_double_get_d(i[0])));
+          return 0;
+      },
+      [](std::vector<B> &, const std::vector<B> &i, XS &x) { x.push_back(hexd(down_cast<const RealDouble &>(*i[0]).i)); });
+    F("complex_double_get", {CDBL}, 0,
+      [](basic_struct **, basic_struct **i, XS &x) {
+          dcomplex d = complex_double_get(i[0]);
+          x.push_back(hexd(d.real) + "," + hexd(d.imag));
+          return 0;
+      },
+      [](std::vector<B> &, const std::vector<B> &i, XS &x) {
+          std::complex<double> z = down_cast<const ComplexDouble &>(*i[0]).i;
+          x.push_back(hexd(z.real()) + "," + hexd(z.imag()));
+      });
+    F("complex_base_real_part", {CPLX}, 1, [](basic_struct **o, basic_struct **i, XS &) { return (int)complex_base_real_part(o[0], i[0]); },
+      [](std::vector<B> &o, const std::vector<B> &i, XS &) {
+          if (is_a<Complex>(*i[0])) {
+              const Complex &c = down_cast<const Complex &>(*i[0]);
+              o[0] = Rational::from_mpq(c.real_);
+          } else
+              o[0] = real_double(down_cast<const ComplexDouble &>(*i[0]).i.real());
+      });
+    F("complex_base_imaginary_part", {CPLX}, 1,
+      [](basic_struct **o, basic_struct **i, XS &) { return (int)complex_base_imaginary_part(o[0], i[0]); },
+      [](std::vector<B> &o, const std::vector<B> &i, XS &) {
+          if (is_a<Complex>(*i[0])) {
+              const Complex &c = down_cast<const Complex &>(*i[0]);
+              o[0] = Rational::from_mpq(c.imaginary_);
+          } else
+              o[0] = real_double(down_cast<const ComplexDouble &>(*i[0]).i.imag());
+      });
+    F("rational_set", {ANY, ANY}, 1, [](basic_struct **o, basic_struct **i, XS &) { return (int)rational_set(o[0], i[0], i[1]); },
+      [](std::vector<B> &o, const std::vector<B> &i, XS &) {
+          if (!is_a<Integer>(*i[0]) || !is_a<Integer>(*i[1]))
+              throw CoreRefusal(); // documented SYMENGINE_RUNTIME_ERROR
+          o[0] = Rational::from_two_ints(INTG(i[0]), INTG(i[1]));
+      });
+    F("complex_set", {NUM, NUM}, 1, [](basic_struct **o, basic_struct **i, XS &) { return (int)complex_set(o[0], i[0], i[1]); },
+      [](std::vector<B> &o, const std::vector<B> &i, XS &) {
+          o[0] = Complex::from_two_nums(down_cast<const Number &>(*i[0]), down_cast<const Number &>(*i[1]));
+      });
+    F("complex_set_rat", {RAT, RAT}, 1, [](basic_struct **o, basic_struct **i, XS &) { return (int)complex_set_rat(o[0], i[0], i[1]); },
+      [](std::vector<B> &o, const std::vector<B> &i, XS &) {
+          o[0] = Complex::from_two_rats(down_cast<const Rational &>(*i[0]), down_cast<const Rational &>(*i[1]));
+      });
+    // ---- sets
+    for (int lo = 0; lo < 2; lo++)
+        for (int ro = 0; ro < 2; ro++)
+            F("basic_set_interval[" + its(lo) + its(ro) + "]", {NUM, NUM}, 1,
+              [lo, ro](basic_struct **o, basic_struct **i, XS &) { return (int)basic_set_interval(o[0], i[0], i[1], lo, ro); },
+              [lo, ro](std::vector<B> &o, const std::vector<B> &i, XS &) {
+                  o[0] = interval(rcp_static_cast<const Number>(i[0]), rcp_static_cast<const Number>(i[1]), lo, ro);
+              });
+    SET2(basic_set_union, set_union);
+    SET2(basic_set_intersection, set_intersection);
+    SET2(basic_set_complement, set_complement);
+    F("basic_set_contains", {SET, ANY}, 1, [](basic_struct **o, basic_struct **i, XS &) { return (int)basic_set_contains(o[0], i[0], i[1]); },
+      [](std::vector<B> &o, const std::vector<B> &i, XS &) { o[0] = SETP(i[0])->contains(i[1]); }, true);
+    SETP2(basic_set_is_subset, is_subset);
+    SETP2(basic_set_is_proper_subset, is_proper_subset);
+    SETP2(basic_set_is_superset, is_superset);
+    SETP2(basic_set_is_proper_superset, is_proper_superset);
+    SET1(basic_set_inf, inf);
+    SET1(basic_set_sup, sup);
+    SET1(basic_set_boundary, boundary);
+    SET1(basic_set_interior, interior);
+    SET1(basic_set_closure, closure);
+    // ---- number theory (Integer handles only)
+    INT2(ntheory_gcd, gcd);
+    INT2(ntheory_lcm, lcm);
+    INT2(ntheory_mod, mod);
+    INT2(ntheory_quotient, quotient);
+    INT2(ntheory_mod_f, mod_f);
+    INT2(ntheory_quotient_f, quotient_f);
+    F("ntheory_gcd_ext", {INT, INT}, 3, [](basic_struct **o, basic_struct **i, XS &) { return (int)ntheory_gcd_ext(o[0], o[1], o[2], i[0], i[1]); },
+      [](std::vector<B> &o, const std::vector<B> &i, XS &) {
+          RCP<const Integer> g, s, t;
+          gcd_ext(outArg(g), outArg(s), outArg(t), INTG(i[0]), INTG(i[1]));
+          o[0] = g;
+          o[1] = s;
+          o[2] = t;
+      });
+    F("ntheory_quotient_mod", {INT, INT}, 2, [](basic_struct **o, basic_struct **i, XS &) { return (int)ntheory_quotient_mod(o[0], o[1], i[0], i[1]); },
+      [](std::vector<B> &o, const std::vector<B> &i, XS &) {
+          RCP<const Integer> q, r;
+          quotient_mod(outArg(q), outArg(r), INTG(i[0]), INTG(i[1]));
+          o[0] = q;
+          o[1] = r;
+      });
+    F("ntheory_quotient_mod_f", {INT, INT}, 2,
+      [](basic_struct **o, basic_struct **i, XS &) { return (int)ntheory_quotient_mod_f(o[0], o[1], i[0], i[1]); },
+      [](std::vector<B> &o, const std::vector<B> &i, XS &) {
+          RCP<const Integer> q, r;
+          quotient_mod_f(outArg(q), outArg(r), INTG(i[0]), INTG(i[1]));
+          o[0] = q;
+          o[1] = r;
+      });
+    F("ntheory_mod_inverse", {INT, INT}, 0,
+      [](basic_struct **, basic_struct **i, XS &x) {
+          Hd b;
+          integer_set_si(b.p, -777); // a C caller's pre-initialised handle
+          int r = ntheory_mod_inverse(b.p, i[0], i[1]);
+          x.push_back(its(r));
+          if (H(b.p).is_null())
+              x.push_back("<NULL>");
+          else if (r != 0)
+              x.push_back(hk(b.p));
+          return 0;
+      },
+      [](std::vector<B> &, const std::vector<B> &i, XS &x) {
+          // oracle: GMP
+          mpz_class a = mpz_of(i[0]), m = mpz_of(i[1]), r;
+          if (m == 0)
+              throw Undecided();
+          int ok = mpz_invert(r.get_mpz_t(), a.get_mpz_t(), m.get_mpz_t());
+          x.push_back(its(ok ? 1 : 0));
+          if (ok)
+              x.push_back("I:" + r.get_str());
+      });
+    F("ntheory_nextprime", {INT}, 1, [](basic_struct **o, basic_struct **i, XS &) { return (int)ntheory_nextprime(o[0], i[0]); },
+      [](std::vector<B> &o, const std::vector<B> &i, XS &) {
+          mpz_class a = mpz_of(i[0]), r;
+          mpz_nextprime(r.get_mpz_t(), a.get_mpz_t());
+          o[0] = integer(integer_class(r.get_str()));
+      });
+    for (unsigned long n : {0ul, 1ul, 2ul, 10ul, 93ul, 100ul}) {
+        F("ntheory_fibonacci[" + uts(n) + "]", {}, 1, [n](basic_struct **o, basic_struct **, XS &) { return (int)ntheory_fibonacci(o[0], n); },
+          [n](std::vector<B> &o, const std::vector<B> &, XS &) {
+              mpz_class r;
+              mpz_fib_ui(r.get_mpz_t(), n);
+              o[0] = integer(integer_class(r.get_str()));
+          });
+        F("ntheory_lucas[" + uts(n) + "]", {}, 1, [n](basic_struct **o, basic_struct **, XS &) { return (int)ntheory_lucas(o[0], n); },
+          [n](std::vector<B> &o, const std::vector<B> &, XS &) {
+              mpz_class r;
+              mpz_lucnum_ui(r.get_mpz_t(), n);
+              o[0] = integer(integer_class(r.get_str()));
+          });
+        F("ntheory_fibonacci2[" + uts(n) + "]", {}, 2, [n](basic_struct **o, basic_struct **, XS &) { return (int)ntheory_fibonacci2(o[0], o[1], n); },
+          [n](std::vector<B> &o, const std::vector<B> &, XS &) {
+              mpz_class r, s;
+              mpz_fib2_ui(r.get_mpz_t(), s.get_mpz_t(), n);
+              o[0] = integer(integer_class(r.get_str()));
+              o[1] = integer(integer_class(s.get_str()));
+          });
+        F("ntheory_lucas2[" + uts(n) + "]", {}, 2, [n](basic_struct **o, basic_struct **, XS &) { return (int)ntheory_lucas2(o[0], o[1], n); },
+          [n](std::vector<B> &o, const std::vector<B> &, XS &) {
+              mpz_class r, s;
+              mpz_lucnum2_ui(r.get_mpz_t(), s.get_mpz_t(), n);
+              o[0] = integer(integer_class(r.get_str()));
+              o[1] = integer(integer_class(s.get_str()));
+          });
+    }
+    for (unsigned long n : {0ul, 1ul, 5ul, 20ul, 25ul})
+        F("ntheory_factorial[" + uts(n) + "]", {}, 1, [n](basic_struct **o, basic_struct **, XS &) { return (int)ntheory_factorial(o[0], n); },
+          [n](std::vector<B> &o, const std::vector<B> &, XS &) {
+              mpz_class r;
+              mpz_fac_ui(r.get_mpz_t(), n);
+              o[0] = integer(integer_class(r.get_str()));
+          });
+    for (unsigned long k : {0ul, 1ul, 2ul, 5ul})
+        F("ntheory_binomial[" + uts(k) + "]", {INT}, 1, [k](basic_struct **o, basic_struct **i, XS &) { return (int)ntheory_binomial(o[0], i[0], k); },
+          [k](std::vector<B> &o, const std::vector<B> &i, XS &) {
+              mpz_class a = mpz_of(i[0]), r;
+              mpz_bin_ui(r.get_mpz_t(), a.get_mpz_t(), k);
+              o[0] = integer(integer_class(r.get_str()));
+          });
+    // ---- evaluation / structure
+    for (unsigned long bits : {53ul, 100ul})
+        for (int dom : {0, 1, 2})
+            F("basic_evalf[" + uts(bits) + "," + its(dom) + "]", {ANY}, 1,
+              [bits, dom](basic_struct **o, basic_struct **i, XS &) { return (int)basic_evalf(o[0], i[0], bits, dom); },
+              [bits, dom](std::vector<B> &o, const std::vector<B> &i, XS &) {
+                  o[0] = evalf(*i[0], bits, dom == 0 ? EvalfDomain::Complex : dom == 1 ? EvalfDomain::Real : EvalfDomain::Symbolic);
+              },
+              bits == 53 && dom < 2);
+    F("basic_as_numer_denom", {ANY}, 2, [](basic_struct **o, basic_struct **i, XS &) { return (int)basic_as_numer_denom(o[0], o[1], i[0]); },
+      [](std::vector<B> &o, const std::vector<B> &i, XS &) {
+          B n, d;
+          as_numer_denom(i[0], outArg(n), outArg(d));
+          o[0] = n;
+          o[1] = d;
+      },
+      true);
+    F("basic_add_as_two_terms", {ADDT}, 2, [](basic_struct **o, basic_struct **i, XS &) { return (int)basic_add_as_two_terms(o[0], o[1], i[0]); },
+      [](std::vector<B> &o, const std::vector<B> &i, XS &) {
+          B a, b;
+          down_cast<const Add &>(*i[0]).as_two_terms(outArg(a), outArg(b));
+          o[0] = a;
+          o[1] = b;
+      },
+      true);
+    F("basic_mul_as_two_terms", {MULT}, 2, [](basic_struct **o, basic_struct **i, XS &) { return (int)basic_mul_as_two_terms(o[0], o[1], i[0]); },
+      [](std::vector<B> &o, const std::vector<B> &i, XS &) {
+          B a, b;
+          down_cast<const Mul &>(*i[0]).as_two_terms(outArg(a), outArg(b));
+          o[0] = a;
+          o[1] = b;
+      },
+      true);
+    F("basic_coeff", {ANY, ANY, ANY}, 1, [](basic_struct **o, basic_struct **i, XS &) { return (int)basic_coeff(o[0], i[0], i[1], i[2]); },
+      [](std::vector<B> &o, const std::vector<B> &i, XS &) { o[0] = coeff(*i[0], *i[1], *i[2]); }, false, true);
+    F("basic_subs2", {ANY, ANY, ANY}, 1, [](basic_struct **o, basic_struct **i, XS &) { return (int)basic_subs2(o[0], i[0], i[1], i[2]); },
+      [](std::vector<B> &o, const std::vector<B> &i, XS &) {
+          map_basic_basic m;
+          m[i[1]] = i[2];
+          o[0] = i[0]->subs(m);
+      },
+      false, true);
+    F("basic_get_args", {ANY}, 0,
+      [](basic_struct **, basic_struct **i, XS &x) {
+          CVec v;
+          int rc = basic_get_args(i[0], v.p);
+          x.push_back(vec_keys(v.p));
+          return rc;
+      },
+      [](std::vector<B> &, const std::vector<B> &i, XS &x) { x.push_back(vec_keys(i[0]->get_args())); }, true);
+    F("basic_free_symbols", {ANY}, 0,
+      [](basic_struct **, basic_struct **i, XS &x) {
+          CSet s;
+          int rc = basic_free_symbols(i[0], s.p);
+          x.push_back(set_keys(s.p));
+          return rc;
+      },
+      [](std::vector<B> &, const std::vector<B> &i, XS &x) { x.push_back(set_keys(free_symbols(*i[0]))); }, true);
+    F("basic_function_symbols", {ANY}, 0,
+      [](basic_struct **, basic_struct **i, XS &x) {
+          CSet s;
+          int rc = basic_function_symbols(s.p, i[0]);
+          x.push_back(set_keys(s.p));
+          return rc;
+      },
+      [](std::vector<B> &, const std::vector<B> &i, XS &x) { x.push_back(set_keys(atoms<FunctionSymbol>(*i[0]))); }, true);
+    F("function_symbol_get_name", {FSYM}, 0,
+      [](basic_struct **, basic_struct **i, XS &x) {
+          x.push_back(take(function_symbol_get_name(i[0])));
+          return 0;
+      },
+      [](std::vector<B> &, const std::vector<B> &i, XS &x) { x.push_back(down_cast<const FunctionSymbol &>(*i[0]).get_name()); });
+    // ---- functions taking containers built from the arguments
+#define VEC2(cfn, coreexpr)                                                                                             \
+    F(#cfn "[a,b]", {ANY, ANY}, 1,                                                                                      \
+      [](basic_struct **o, basic_struct **i, XS &) {                                                                    \
+          CVec v{i[0], i[1]};                                                                                           \
+          return (int)cfn(o[0], v.p);                                                                                   \
+      },                                                                                                                \
+      [](std::vector<B> &o, const std::vector<B> &i, XS &) {                                                            \
+          vec_basic v{i[0], i[1]};                                                                                      \
+          o[0] = coreexpr;                                                                                              \
+      })
+    VEC2(basic_max, SymEngine::max(v));
+    VEC2(basic_min, SymEngine::min(v));
+    VEC2(basic_add_vec, SymEngine::add(v));
+    VEC2(basic_mul_vec, SymEngine::mul(v));
+    for (const char *s : {"f", ""}) {
+        std::string str(s);
+        F("function_symbol_set[" + jstr(str) + ";a,b]", {ANY, ANY}, 1,
+          [str](basic_struct **o, basic_struct **i, XS &) {
+              CVec v{i[0], i[1]};
+              return (int)function_symbol_set(o[0], str.c_str(), v.p);
+          },
+          [str](std::vector<B> &o, const std::vector<B> &i, XS &) { o[0] = function_symbol(str, vec_basic{i[0], i[1]}); });
+    }
+    F("basic_set_finiteset{a,b}", {ANY, ANY}, 1,
+      [](basic_struct **o, basic_struct **i, XS &) {
+          CSet s;
+          setbasic_insert(s.p, i[0]);
+          setbasic_insert(s.p, i[1]);
+          return (int)basic_set_finiteset(o[0], s.p);
+      },
+      [](std::vector<B> &o, const std::vector<B> &i, XS &) { o[0] = finiteset(set_basic{i[0], i[1]}); });
+    F("basic_subs{a->b}", {ANY, ANY, ANY}, 1,
+      [](basic_struct **o, basic_struct **i, XS &) {
+          CMapBasicBasic *m = mapbasicbasic_new();
+          mapbasicbasic_insert(m, i[1], i[2]);
+          int rc = basic_subs(o[0], i[0], m);
+          mapbasicbasic_free(m);
+          return rc;
+      },
+      [](std::vector<B> &o, const std::vector<B> &i, XS &) {
+          map_basic_basic m;
+          m[i[1]] = i[2];
+          o[0] = i[0]->subs(m);
+      },
+      false, true);
+    F("basic_solve_poly", {ANY, SYM}, 0,
+      [](basic_struct **, basic_struct **i, XS &x) {
+          CSet s;
+          int rc = basic_solve_poly(s.p, i[0], i[1]);
+          x.push_back(set_keys(s.p));
+          return rc;
+      },
+      [](std::vector<B> &, const std::vector<B> &i, XS &x) {
+          RCP<const Set> s = solve_poly(i[0], rcp_static_cast<const Symbol>(i[1]));
+          if (!is_a<FiniteSet>(*s))
+              throw CoreRefusal(); // documented: "if the set of solutions is finite"
+          x.push_back(set_keys(down_cast<const FiniteSet &>(*s).get_container()));
+      });
+    F("vecbasic_linsolve[a,b;x,y]", {ANY, ANY}, 0,
+      [](basic_struct **, basic_struct **i, XS &x) {
+          Hd sx, sy;
+          symbol_set(sx.p, "x");
+          symbol_set(sy.p, "y");
+          CVec sys{i[0], i[1]}, sym{sx.p, sy.p}, sol;
+          int rc = vecbasic_linsolve(sol.p, sys.p, sym.p);
+          x.push_back(vec_keys(sol.p));
+          return rc;
+      },
+      [](std::vector<B> &, const std::vector<B> &i, XS &x) {
+          vec_sym sy{symbol("x"), symbol("y")};
+          x.push_back(vec_keys(linsolve(vec_basic{i[0], i[1]}, sy)));
+      });
+    F("basic_cse[a,b]", {ANY, ANY}, 0,
+      [](basic_struct **, basic_struct **i, XS &x) {
+          CVec ex{i[0], i[1]}, rs, re, red;
+          int rc = basic_cse(rs.p, re.p, red.p, ex.p);
+          x.push_back(vec_keys(rs.p));
+          x.push_back(vec_keys(re.p));
+          x.push_back(vec_keys(red.p));
+          return rc;
+      },
+      [](std::vector<B> &, const std::vector<B> &i, XS &x) {
+          vec_pair rep;
+          vec_basic red, a, b;
+          cse(rep, red, vec_basic{i[0], i[1]});
+          for (auto &p : rep) {
+              a.push_back(p.first);
+              b.push_back(p.second);
+          }
+          x.push_back(vec_keys(a));
+          x.push_back(vec_keys(b));
+          x.push_back(vec_keys(red));
+      });
+    for (int cs = 0; cs < 2; cs++)
+        F("lambda_real_double_visitor[x,y;a;cse=" + its(cs) + "]", {ANY}, 0,
+          [cs](basic_struct **, basic_struct **i, XS &x) {
+              Hd sx, sy;
+              symbol_set(sx.p, "x");
+              symbol_set(sy.p, "y");
+              CVec args{sx.p, sy.p}, ex{i[0]};
+              CLambdaRealDoubleVisitor *v = lambda_real_double_visitor_new();
+              struct G {
+                  CLambdaRealDoubleVisitor *v;
+                  ~G()
+                  {
+                      lambda_real_double_visitor_free(v);
+                  }
+              } g{v};
+              lambda_real_double_visitor_init(v, args.p, ex.p, cs);
+              double in[2] = {0.75, -1.25}, out = 0;
+              lambda_real_double_visitor_call(v, &out, in);
+              x.push_back(hexd(out));
+              return 0;
+          },
+          [cs](std::vector<B> &, const std::vector<B> &i, XS &x) {
+              LambdaRealDoubleVisitor v;
+              v.init(vec_basic{symbol("x"), symbol("y")}, vec_basic{i[0]}, cs);
+              double in[2] = {0.75, -1.25}, out = 0;
+              v.call(&out, in);
+              x.push_back(hexd(out));
+          });
+    F("misc:version/component/ascii_art", {}, 0,
+      [](basic_struct **, basic_struct **, XS &x) {
+          x.push_back(symengine_version());
+          x.push_back(its(symengine_have_component("mpfr")) + its(symengine_have_component("nonsense")));
+          x.push_back(take(ascii_art_str()));
+          CVectorInt *v = vectorint_new();
+          vectorint_push_back(v, 5);
+          vectorint_push_back(v, -7);
+          x.push_back(its(vectorint_get(v, 0)) + "," + its(vectorint_get(v, 1)));
+          vectorint_free(v);
+          return 0;
+      },
+      [](std::vector<B> &, const std::vector<B> &, XS &x) {
+          x.push_back(SYMENGINE_VERSION);
+          x.push_back("00");
+          x.push_back(ascii_art());
+          x.push_back("5,-7");
+      });
+}
+
+// ---------------------------------------------------------------- pool of handle values
+static StateSet SS;          // pool first, then depth-1 results
+static std::vector<int> SMALL; // reduced pool for ternary functions
+static long long NPOOL = 0;
+
+static void build_pool()
+{
+    B x = symbol("x"), y = symbol("y");
+    auto Q = [](long a, long b) { return Rational::from_two_ints(a, b); };
+    B big = integer(integer_class("1180591620717411303425")); // 2^70+1
+    std::vector<std::pair<std::string, B>> P = {
+        {"0", integer(0)},
+        {"1", integer(1)},
+        {"-1", integer(-1)},
+        {"2", integer(2)},
+        {"-2", integer(-2)},
+        {"3", integer(3)},
+        {"2^70+1", big},
+        {"1/2", Q(1, 2)},
+        {"-2/3", Q(-2, 3)},
+        {"I", I},
+        {"1+2/3*I", Complex::from_two_nums(*integer(1), *Q(2, 3))},
+        {"0.5", real_double(0.5)},
+        {"-2.0", real_double(-2.0)},
+        {"0.0", real_double(0.0)},
+        {"1.0+2.0i", complex_double(std::complex<double>(1.0, 2.0))},
+        {"x", x},
+        {"y", y},
+        {"pi", pi},
+        {"E", E},
+        {"oo", Inf},
+        {"-oo", NegInf},
+        {"zoo", ComplexInf},
+        {"nan", Nan},
+        {"x+y", add(x, y)},
+        {"x+1", add(x, integer(1))},
+        {"2*x", mul(integer(2), x)},
+        {"x*y", mul(x, y)},
+        {"x**2", pow(x, integer(2))},
+        {"x**y", pow(x, y)},
+        {"1/x", div(integer(1), x)},
+        {"sqrt(2)", sqrt(integer(2))},
+        {"(x+1)**2", pow(add(x, integer(1)), integer(2))},
+        {"f(x)", function_symbol("f", x)},
+        {"sin(x)", sin(x)},
+        {"log(x)", log(x)},
+        {"abs(x)", abs(x)},
+        {"True", boolTrue},
+        {"x<y", Lt(x, y)},
+        {"EmptySet", emptyset()},
+        {"UniversalSet", universalset()},
+        {"Reals", reals()},
+        {"Integers", integers()},
+        {"Rationals", rationals()},
+        {"Complexes", complexes()},
+        {"[0,1]", interval(integer(0), integer(1), false, false)},
+        {"(0,oo)", interval(integer(0), Inf, true, true)},
+        {"{1,x}", finiteset({integer(1), x})},
+    };
+    std::set<std::string> small = {"0", "1", "-1", "2", "1/2", "I", "0.5", "x", "y", "oo", "nan", "x+y", "2*x", "x**2", "sin(x)", "f(x)", "Reals", "True"};
+    for (auto &p : P) {
+        bool fresh;
+        int id = SS.add(p.second, p.first, 0, &fresh);
+        if (!fresh) {
+            fprintf(stderr, "duplicate pool entry %s\n", p.first.c_str());
+            exit(2);
+        }
+        if (small.count(p.first))
+            SMALL.push_back(id);
+    }
+    NPOOL = SS.size();
+}
+
+// ---------------------------------------------------------------- enumeration plans
+struct Plan {
+    int fn;
+    std::vector<std::vector<int>> cand; // candidate state indices per input
+    int modes;                          // aliasing modes: 0 none; 1 + o*nin + j: output o is the handle of input j
+    long long nargs, n, base;
+};
+struct Layer {
+    std::vector<Plan> plans;
+    long long total = 0;
+    void add(Plan p)
+    {
+        p.nargs = 1;
+        for (auto &c : p.cand)
+            p.nargs *= (long long)c.size();
+        p.n = p.nargs * p.modes;
+        p.base = total;
+        if (p.n > 0) {
+            total += p.n;
+            plans.push_back(p);
+        }
+    }
+    // decode: plan, argument state indices, mode
+    const Plan &decode(long long i, std::vector<int> &args, int &mode) const
+    {
+        size_t lo = 0, hi = plans.size();
+        while (hi - lo > 1) {
+            size_t mid = (lo + hi) / 2;
+            if (plans[mid].base <= i)
+                lo = mid;
+            else
+                hi = mid;
+        }
+        const Plan &p = plans[lo];
+        long long j = i - p.base;
+        mode = (int)(j / p.nargs);
+        j %= p.nargs;
+        args.assign(p.cand.size(), 0);
+        for (int k = (int)p.cand.size() - 1; k >= 0; k--) {
+            args[k] = p.cand[k][j % (long long)p.cand[k].size()];
+            j /= (long long)p.cand[k].size();
+        }
+        return p;
+    }
+};
+
+static std::string argtypes(const std::vector<int> &args)
+{
+    std::string o = "(";
+    for (size_t k = 0; k < args.size(); k++)
+        o += (k ? "," : "") + tname(SS.S[args[k]].e);
+    return o + ")";
+}
+static std::string sigclass(const Fn &f)
+{
+    size_t p = f.name.find('[');
+    return p == std::string::npos ? f.name : f.name.substr(0, p);
+}
+static std::string case_desc(const Layer &L, long long i)
+{
+    std::vector<int> a;
+    int mode;
+    const Plan &p = L.decode(i, a, mode);
+    const Fn &f = FN[p.fn];
+    std::string o = f.name + "(";
+    for (size_t k = 0; k < a.size(); k++)
+        o += (k ? ", " : "") + SS.S[a[k]].recipe;
+    o += ")";
+    if (mode > 0)
+        o += " with output " + its((mode - 1) / (int)a.size()) + " aliasing input " + its((mode - 1) % (int)a.size());
+    return o;
+}
+
+enum { K_OK_EQUAL, K_BOTH_ERR, K_C_ERR_CORE_OK, K_CODE_DIFFERS, K_UNDECIDED, K_ALIASED, K_OUT_CHANGED_ON_ERR, K_CALLS_D1, K_CALLS_D2 };
+static std::vector<std::string> CN = {"calls_success_equal_to_core", "calls_error_code_and_core_throws", "calls_error_code_but_core_succeeds(allowed)",
+                                      "error_code_differs_from_core_exception_code", "calls_not_judged(oracle_undecided)", "calls_with_aliased_output",
+                                      "output_changed_although_error_returned", "calls_depth1", "calls_depth2"};
+
+struct Obs {
+    int rc = 0;
+    bool threw = false, undecided = false;
+    std::string what;
+    XS v;
+};
+
+static void limit_memory()
+{
+    static bool done = false;
+    if (done)
+        return;
+    done = true;
+    struct rlimit rl;
+    rl.rlim_cur = rl.rlim_max = 4ull << 30;
+    setrlimit(RLIMIT_AS, &rl);
+}
+
+// one call on fresh handles; returns the keys of the successful outputs in outs (for state building)
+static void exec_case(const Fn &f, const std::vector<int> &a, int mode, Ctx &c, const std::string &desc, bool record_sample)
+{
+    limit_memory();
+    int nin = (int)a.size();
+    std::vector<B> args;
+    for (int k : a)
+        args.push_back(SS.S[k].e);
+    std::vector<std::unique_ptr<Hd>> ih, oh;
+    std::vector<basic_struct *> ip(nin), op(f.nout);
+    for (int j = 0; j < nin; j++) {
+        ih.emplace_back(new Hd);
+        H(ih[j]->p) = args[j];
+        ip[j] = ih[j]->p;
+    }
+    for (int o = 0; o < f.nout; o++) {
+        oh.emplace_back(new Hd);
+        op[o] = oh[o]->p;
+    }
+    int ao = -1, aj = -1;
+    if (mode > 0) {
+        ao = (mode - 1) / nin;
+        aj = (mode - 1) % nin;
+        op[ao] = ip[aj];
+        c.count(K_ALIASED);
+    }
+    std::string sig = sigclass(f) + argtypes(a) + (mode > 0 ? "[aliased]" : "");
+    c.eval();
+    // ---- the C call
+    Obs C;
+    try {
+        C.rc = f.c(op.data(), ip.data(), C.v);
+    } catch (std::exception &e) {
+        C.threw = true;
+        C.what = e.what();
+    } catch (...) {
+        C.threw = true;
+        C.what = "(non-std exception)";
+    }
+    if (C.threw) {
+        c.outcome("escape:" + sigclass(f));
+        c.violation("escape:" + sigclass(f) + argtypes(a), desc + ": a C++ exception escaped from the C API: " + C.what.substr(0, 300));
+        return;
+    }
+    // ---- the corresponding core call, on copies of the operands
+    Obs K;
+    std::vector<B> kout(f.nout);
+    try {
+        f.k(kout, args, K.v);
+    } catch (Undecided &) {
+        K.undecided = true;
+    } catch (SymEngineException &e) {
+        K.rc = e.error_code();
+        K.what = e.what();
+        if (K.rc == 0)
+            K.rc = SYMENGINE_RUNTIME_ERROR;
+    } catch (std::exception &e) {
+        K.rc = SYMENGINE_RUNTIME_ERROR;
+        K.what = e.what();
+    }
+    // inputs must not be modified (unless they double as outputs)
+    for (int j = 0; j < nin; j++)
+        if (!(mode > 0 && j == aj) && H(ip[j]).get() != args[j].get())
+            c.violation("input-modified:" + sig, desc + ": input handle " + its(j) + " was changed by the call, now " + hk(ip[j]));
+    if (K.undecided) {
+        c.count(K_UNDECIDED);
+        c.outcome("undecided:" + sigclass(f));
+        return;
+    }
+    if (C.rc != 0) {
+        // error code: allowed by the statement; outputs should be untouched
+        for (int o = 0; o < f.nout; o++) {
+            const Basic *was = (o == ao) ? args[aj].get() : nullptr;
+            if (H(op[o]).get() != was)
+                c.count(K_OUT_CHANGED_ON_ERR);
+        }
+        if (K.rc != 0) {
+            c.count(K_BOTH_ERR);
+            if (K.rc != C.rc && K.what != "documented: error code expected")
+                c.count(K_CODE_DIFFERS);
+            c.outcome("err" + its(C.rc) + ":" + sigclass(f));
+        } else {
+            c.count(K_C_ERR_CORE_OK);
+            c.outcome("c-error-core-ok:" + sigclass(f));
+        }
+        c.nontrivial();
+        return;
+    }
+    // success: all outputs must be valid handles
+    XS cv;
+    for (int o = 0; o < f.nout; o++) {
+        cv.push_back(hk(op[o]));
+        if (H(op[o]).is_null()) {
+            c.violation("null-output:" + sig, desc + ": returned success but output handle " + its(o) + " holds no object");
+            return;
+        }
+    }
+    if (K.rc != 0) {
+        c.outcome("ok-but-core-throws:" + sigclass(f));
+        c.violation("success-but-core-throws:" + sig, desc + ": the C call reported success (outputs " + (cv.empty() ? "" : cv[0]) + (C.v.empty() ? "" : " " + C.v[0].substr(0, 80))
+                                                          + ") but the corresponding core call throws: " + K.what.substr(0, 200));
+        return;
+    }
+    XS kv;
+    for (int o = 0; o < f.nout; o++)
+        kv.push_back(kk(kout[o]));
+    cv.insert(cv.end(), C.v.begin(), C.v.end());
+    kv.insert(kv.end(), K.v.begin(), K.v.end());
+    if (cv != kv) {
+        std::string d;
+        for (size_t t = 0; t < std::max(cv.size(), kv.size()); t++) {
+            std::string l = t < cv.size() ? cv[t] : "(missing)", r = t < kv.size() ? kv[t] : "(missing)";
+            if (l != r) {
+                d = "value " + its(t) + ": C API gives " + l.substr(0, 200) + " but the core API gives " + r.substr(0, 200);
+                break;
+            }
+        }
+        c.outcome("mismatch:" + sigclass(f));
+        c.violation("mismatch:" + sig, desc + ": " + d);
+        return;
+    }
+    c.count(K_OK_EQUAL);
+    std::string oc = "ok:" + sigclass(f);
+    if (f.nout > 0)
+        oc += "->" + tname(H(op[0]));
+    else if (!cv.empty() && cv[0].size() < 6)
+        oc += "=" + cv[0];
+    c.outcome(oc);
+    if (f.nout > 0 && (nin == 0 || H(op[0]).get() != args[0].get()))
+        c.nontrivial();
+    else if (f.nout == 0)
+        c.nontrivial();
+    if (record_sample)
+        c.sample("{\"call\":" + jstr(desc) + ",\"rc\":0,\"result\":" + jstr(cv.empty() ? "" : cv[0].substr(0, 100)) + "}");
+}
+
+static void run_layer(Layer &L, const std::string &name, int depth_counter, std::set<long long> *bad_out)
+{
+    CaseSet cs;
+    cs.name = name;
+    cs.n = L.total;
+    cs.hang_s = 10;
+    cs.counter_names = CN;
+    cs.desc = [&](long long i) { return case_desc(L, i); };
+    cs.crash_sig = [&](long long i, const std::string &oc) {
+        std::vector<int> a;
+        int mode;
+        const Plan &p = L.decode(i, a, mode);
+        std::string cls = oc.find("hang") != std::string::npos ? "hang" : "crash";
+        return cls + ":" + sigclass(FN[p.fn]) + argtypes(a);
+    };
+    cs.body = [&](long long i, Ctx &c) {
+        std::vector<int> a;
+        int mode;
+        const Plan &p = L.decode(i, a, mode);
+        c.count(depth_counter);
+        exec_case(FN[p.fn], a, mode, c, case_desc(L, i), i % 4001 == 0);
+    };
+    run_cases(cs);
+    if (bad_out)
+        *bad_out = cs.bad;
+}
+
+// ---------------------------------------------------------------- containers vs std models (E2, all op sequences of length <= 4)
+enum { KC_OPS, KC_TRUNC, KC_FINAL };
+static std::vector<std::string> CNC = {"container_ops_executed", "container_sequences_truncated(op_not_enabled)", "container_final_derived_calls"};
+
+static void run_vec_sequences(int depth)
+{
+    B x = symbol("x"), y = symbol("y");
+    std::vector<B> V = {x, integer(1), add(x, y)};
+    const char *VN[] = {"x", "1", "x+y"};
+    const int NOPS = 3 + 9 + 3; // push v | set i v | erase i
+    auto opname = [&](int op) {
+        if (op < 3)
+            return std::string("push_back(") + VN[op] + ")";
+        if (op < 12)
+            return "set(" + its((op - 3) / 3) + "," + VN[(op - 3) % 3] + ")";
+        return "erase(" + its(op - 12) + ")";
+    };
+    CaseSet cs;
+    cs.name = "vecbasic-seq";
+    cs.n = 1;
+    for (int d = 0; d < depth; d++)
+        cs.n *= NOPS;
+    cs.counter_names = CNC;
+    auto seq = [&](long long i) {
+        std::vector<int> s(depth);
+        for (int d = depth - 1; d >= 0; d--) {
+            s[d] = i % NOPS;
+            i /= NOPS;
+        }
+        return s;
+    };
+    cs.desc = [&](long long i) {
+        std::string o = "vecbasic_new";
+        for (int op : seq(i))
+            o += "; " + opname(op);
+        return o;
+    };
+    cs.crash_sig = [&](long long, const std::string &oc) { return "crash:vecbasic-sequence:" + oc; };
+    cs.body = [&](long long i, Ctx &c) {
+        CVec v;
+        std::vector<B> m;
+        Hd h, g;
+        std::string done = "vecbasic_new";
+        try {
+            for (int op : seq(i)) {
+                int rc = 0;
+                if (op < 3) {
+                    H(h.p) = V[op];
+                    rc = vecbasic_push_back(v.p, h.p);
+                    m.push_back(V[op]);
+                } else if (op < 12) {
+                    size_t k = (op - 3) / 3;
+                    if (k >= m.size()) {
+                        c.count(KC_TRUNC);
+                        break;
+                    }
+                    H(h.p) = V[(op - 3) % 3];
+                    rc = vecbasic_set(v.p, k, h.p);
+                    m[k] = V[(op - 3) % 3];
+                } else {
+                    size_t k = op - 12;
+                    if (k >= m.size()) {
+                        c.count(KC_TRUNC);
+                        break;
+                    }
+                    rc = vecbasic_erase(v.p, k);
+                    m.erase(m.begin() + k);
+                }
+                c.eval();
+                c.count(KC_OPS);
+                done += "; " + opname(op);
+                std::string got = vec_keys(v.p), want = vec_keys(m);
+                if (rc != 0 || vecbasic_size(v.p) != m.size() || got != want) {
+                    c.violation("vecbasic:" + opname(op).substr(0, opname(op).find('(')),
+                                done + ": rc=" + its(rc) + " size=" + its(vecbasic_size(v.p)) + " contents " + got + "; std::vector model " + want);
+                    return;
+                }
+            }
+            c.outcome("vec:size" + its(m.size()));
+            if (m.size() != 1)
+                c.nontrivial();
+            // derived calls on the final container
+            if (!m.empty()) {
+                c.count(KC_FINAL, 2);
+                c.eval(2);
+                int rc = basic_add_vec(g.p, v.p);
+                B want = add(vec_basic(m.begin(), m.end()));
+                if (rc != 0 || hk(g.p) != kk(want))
+                    c.violation("vecbasic:basic_add_vec", done + "; basic_add_vec gives rc=" + its(rc) + " " + hk(g.p) + ", core add(vec) " + kk(want));
+                rc = function_symbol_set(g.p, "g", v.p);
+                want = function_symbol("g", vec_basic(m.begin(), m.end()));
+                if (rc != 0 || hk(g.p) != kk(want))
+                    c.violation("vecbasic:function_symbol_set", done + "; function_symbol_set gives rc=" + its(rc) + " " + hk(g.p) + ", core " + kk(want));
+            }
+        } catch (std::exception &e) {
+            c.violation("escape:vecbasic-sequence", done + ": exception escaped: " + e.what());
+        }
+        if (i % 5003 == 0)
+            c.sample("{\"sequence\":" + jstr(done) + ",\"final\":" + jstr(vec_keys(m)) + "}");
+    };
+    run_cases(cs);
+}
+
+static void run_set_sequences(int depth)
+{
+    B x = symbol("x"), y = symbol("y");
+    std::vector<B> V = {x, integer(1), add(x, y), add(y, x)}; // the last two are equal but distinct objects
+    const char *VN[] = {"x", "1", "x+y", "y+x"};
+    const int NOPS = 12; // insert v | erase v | find v
+    auto opname = [&](int op) { return std::string(op < 4 ? "insert(" : op < 8 ? "erase(" : "find(") + VN[op % 4] + ")"; };
+    CaseSet cs;
+    cs.name = "setbasic-seq";
+    cs.n = 1;
+    for (int d = 0; d < depth; d++)
+        cs.n *= NOPS;
+    cs.counter_names = CNC;
+    auto seq = [&](long long i) {
+        std::vector<int> s(depth);
+        for (int d = depth - 1; d >= 0; d--) {
+            s[d] = i % NOPS;
+            i /= NOPS;
+        }
+        return s;
+    };
+    cs.desc = [&](long long i) {
+        std::string o = "setbasic_new";
+        for (int op : seq(i))
+            o += "; " + opname(op);
+        return o;
+    };
+    cs.crash_sig = [&](long long, const std::string &oc) { return "crash:setbasic-sequence:" + oc; };
+    cs.body = [&](long long i, Ctx &c) {
+        CSet s;
+        std::map<std::string, B> m;
+        Hd h, g;
+        std::string done = "setbasic_new";
+        try {
+            for (int op : seq(i)) {
+                const B &val = V[op % 4];
+                H(h.p) = val;
+                std::string k = kk(val);
+                int got, want;
+                if (op < 4) {
+                    got = setbasic_insert(s.p, h.p);
+                    want = m.count(k) ? 0 : 1;
+                    m.emplace(k, val);
+                } else if (op < 8) {
+                    got = setbasic_erase(s.p, h.p);
+                    want = m.erase(k) ? 1 : 0;
+                } else {
+                    got = setbasic_find(s.p, h.p);
+                    want = m.count(k) ? 1 : 0;
+                }
+                c.eval();
+                c.count(KC_OPS);
+                done += "; " + opname(op);
+                std::string ks = "{";
+                for (auto &p : m)
+                    ks += p.first + ";";
+                ks += "}";
+                std::string cks = set_keys(s.p);
+                if (got != want || setbasic_size(s.p) != m.size() || cks != ks) {
+                    c.violation("setbasic:" + opname(op).substr(0, opname(op).find('(')), done + ": returned " + its(got) + " size " + its(setbasic_size(s.p)) + " contents "
+                                                                                              + cks + "; std::set model returns " + its(want) + " contents " + ks);
+                    return;
+                }
+            }
+            c.outcome("set:size" + its(m.size()));
+            if (m.size() >= 2)
+                c.nontrivial();
+            c.count(KC_FINAL);
+            c.eval();
+            int rc = basic_set_finiteset(g.p, s.p);
+            set_basic sb;
+            for (auto &p : m)
+                sb.insert(p.second);
+            B want = finiteset(sb);
+            if (rc != 0 || hk(g.p) != kk(want))
+                c.violation("setbasic:basic_set_finiteset", done + "; basic_set_finiteset gives rc=" + its(rc) + " " + hk(g.p) + ", core " + kk(want));
+        } catch (std::exception &e) {
+            c.violation("escape:setbasic-sequence", done + ": exception escaped: " + e.what());
+        }
+        if (i % 5003 == 0)
+            c.sample("{\"sequence\":" + jstr(done) + ",\"final_size\":" + its(m.size()) + "}");
+    };
+    run_cases(cs);
+}
+
+static void run_map_sequences(int depth)
+{
+    B x = symbol("x"), y = symbol("y");
+    std::vector<B> Kx = {x, y, add(x, y), add(y, x)};
+    std::vector<B> Vx = {integer(1), x, y};
+    const char *KN[] = {"x", "y", "x+y", "y+x"}, *VN[] = {"1", "x", "y"};
+    const int NOPS = 12 + 4;
+    auto opname = [&](int op) {
+        if (op < 12)
+            return std::string("insert(") + KN[op / 3] + "," + VN[op % 3] + ")";
+        return std::string("get(") + KN[op - 12] + ")";
+    };
+    B probe = add(add(x, mul(integer(2), y)), pow(add(x, y), integer(2)));
+    CaseSet cs;
+    cs.name = "mapbasicbasic-seq";
+    cs.n = 1;
+    for (int d = 0; d < depth; d++)
+        cs.n *= NOPS;
+    cs.counter_names = CNC;
+    auto seq = [&](long long i) {
+        std::vector<int> s(depth);
+        for (int d = depth - 1; d >= 0; d--) {
+            s[d] = i % NOPS;
+            i /= NOPS;
+        }
+        return s;
+    };
+    cs.desc = [&](long long i) {
+        std::string o = "mapbasicbasic_new";
+        for (int op : seq(i))
+            o += "; " + opname(op);
+        return o;
+    };
+    cs.crash_sig = [&](long long, const std::string &oc) { return "crash:mapbasicbasic-sequence:" + oc; };
+    cs.body = [&](long long i, Ctx &c) {
+        CMapBasicBasic *mp = mapbasicbasic_new();
+        std::map<std::string, std::pair<B, B>> m;
+        Hd h, g, r;
+        std::string done = "mapbasicbasic_new";
+        try {
+            for (int op : seq(i)) {
+                done += "; " + opname(op);
+                c.eval();
+                c.count(KC_OPS);
+                if (op < 12) {
+                    H(h.p) = Kx[op / 3];
+                    H(g.p) = Vx[op % 3];
+                    mapbasicbasic_insert(mp, h.p, g.p);
+                    std::string k = kk(Kx[op / 3]);
+                    auto it = m.find(k);
+                    if (it == m.end())
+                        m.emplace(k, std::make_pair(Kx[op / 3], Vx[op % 3]));
+                    else
+                        it->second.second = Vx[op % 3];
+                } else {
+                    H(h.p) = Kx[op - 12];
+                    integer_set_si(r.p, -777);
+                    int got = mapbasicbasic_get(mp, h.p, r.p);
+                    auto it = m.find(kk(Kx[op - 12]));
+                    int want = it != m.end();
+                    std::string wk = want ? kk(it->second.second) : "I:-777";
+                    if (got != want || hk(r.p) != wk) {
+                        c.violation("mapbasicbasic:get", done + ": returned " + its(got) + " value " + hk(r.p) + "; std::map model " + its(want) + " value " + wk);
+                        mapbasicbasic_free(mp);
+                        return;
+                    }
+                }
+                if (mapbasicbasic_size(mp) != m.size()) {
+                    c.violation("mapbasicbasic:size", done + ": size " + its(mapbasicbasic_size(mp)) + "; std::map model " + its(m.size()));
+                    mapbasicbasic_free(mp);
+                    return;
+                }
+            }
+            c.outcome("map:size" + its(m.size()));
+            if (m.size() >= 1)
+                c.nontrivial();
+            c.count(KC_FINAL);
+            c.eval();
+            H(h.p) = probe;
+            int rc = basic_subs(r.p, h.p, mp);
+            map_basic_basic mb;
+            for (auto &p : m)
+                mb[p.second.first] = p.second.second;
+            B want = probe->subs(mb);
+            if (rc != 0 || hk(r.p) != kk(want))
+                c.violation("mapbasicbasic:basic_subs", done + "; basic_subs(x+2*y+(x+y)**2, map) gives rc=" + its(rc) + " " + hk(r.p) + ", core subs with the model map " + kk(want));
+        } catch (std::exception &e) {
+            c.violation("escape:mapbasicbasic-sequence", done + ": exception escaped: " + e.what());
+        }
+        mapbasicbasic_free(mp);
+        if (i % 5003 == 0)
+            c.sample("{\"sequence\":" + jstr(done) + ",\"final_size\":" + its(m.size()) + "}");
+    };
+    run_cases(cs);
+}
+
+// ---------------------------------------------------------------- dense / sparse matrices
+struct MSpec {
+    std::string name;
+    unsigned r, c;
+    std::vector<B> e;
+};
+static std::vector<MSpec> MP;
+struct CMat {
+    CDenseMatrix *p;
+    CMat()
+    {
+        p = dense_matrix_new();
+    }
+    CMat(unsigned r, unsigned c)
+    {
+        p = dense_matrix_new_rows_cols(r, c);
+    }
+    explicit CMat(const MSpec &s)
+    {
+        CVecBasic *v = vecbasic_new();
+        Hd h;
+        for (auto &x : s.e) {
+            H(h.p) = x;
+            vecbasic_push_back(v, h.p);
+        }
+        p = dense_matrix_new_vec(s.r, s.c, v);
+        vecbasic_free(v);
+    }
+    ~CMat()
+    {
+        dense_matrix_free(p);
+    }
+    CMat(const CMat &) = delete;
+};
+static std::string mkeys(const CDenseMatrix *m)
+{
+    unsigned long r = dense_matrix_rows(m), c = dense_matrix_cols(m);
+    std::string o = its(r) + "x" + its(c) + "[";
+    Hd h;
+    for (unsigned long i = 0; i < r; i++)
+        for (unsigned long j = 0; j < c; j++) {
+            H(h.p) = B();
+            dense_matrix_get_basic(h.p, m, i, j);
+            o += hk(h.p) + ";";
+        }
+    return o + "]";
+}
+static std::string mkeys(const DenseMatrix &m)
+{
+    std::string o = its(m.nrows()) + "x" + its(m.ncols()) + "[";
+    for (unsigned i = 0; i < m.nrows(); i++)
+        for (unsigned j = 0; j < m.ncols(); j++)
+            o += kk(m.m_[i * m.ncols() + j]) + ";";
+    return o + "]";
+}
+static DenseMatrix core_of(const MSpec &s)
+{
+    return DenseMatrix(s.r, s.c, vec_basic(s.e.begin(), s.e.end()));
+}
+struct MCase {
+    std::string desc, sig;
+    std::function<int(std::string &)> c; // rc + observation
+    std::function<std::string()> k;      // observation or throw
+};
+static std::vector<MCase> MC;
+
+static void build_matrix_cases()
+{
+    B x = symbol("x"), y = symbol("y");
+    auto N = [](long v) -> B { return integer(v); };
+    MP = {{"[0]", 1, 1, {N(0)}},
+          {"[x]", 1, 1, {x}},
+          {"[[1,2],[3,4]]", 2, 2, {N(1), N(2), N(3), N(4)}},
+          {"[[1,2],[2,4]]", 2, 2, {N(1), N(2), N(2), N(4)}},
+          {"[[x,y],[y,x]]", 2, 2, {x, y, y, x}},
+          {"[[2,1],[1,2]]", 2, 2, {N(2), N(1), N(1), N(2)}},
+          {"[[1,0,x],[0,1,y]]", 2, 3, {N(1), N(0), x, N(0), N(1), y}},
+          {"[[1,2],[3,4],[5,6]]", 3, 2, {N(1), N(2), N(3), N(4), N(5), N(6)}},
+          {"[[2,0,1],[0,1,0],[1,0,3]]", 3, 3, {N(2), N(0), N(1), N(0), N(1), N(0), N(1), N(0), N(3)}},
+          {"[[x*y],[x+y]]", 2, 1, {mul(x, y), add(x, y)}},
+          {"[[x],[y]]", 2, 1, {x, y}},
+          {"[[x],[1]]", 2, 1, {x, N(1)}},
+          {"[[0,0],[0,0]]", 2, 2, {N(0), N(0), N(0), N(0)}},
+          {"[[0.5,1.0],[2.0,4.0]]", 2, 2, {real_double(0.5), real_double(1.0), real_double(2.0), real_double(4.0)}},
+          {"[[0,1],[1,0]]", 2, 2, {N(0), N(1), N(1), N(0)}}};
+    const int nm = MP.size();
+    auto sq = [&](int a) { return MP[a].r == MP[a].c; };
+    auto shape = [&](int a) { return its(MP[a].r) + "x" + its(MP[a].c); };
+#define MADD(d, s, ...) MC.push_back(MCase{d, s, __VA_ARGS__})
+    for (int a = 0; a < nm; a++) {
+        const std::string A = MP[a].name;
+        if (sq(a)) {
+            MADD("dense_matrix_det(" + A + ")", "dense_matrix_det", [=](std::string &out) -> int {
+                CMat m(MP[a]);
+                Hd h;
+                int rc = dense_matrix_det(h.p, m.p);
+                out = hk(h.p);
+                return rc;
+            }, [=]() -> std::string { return kk(core_of(MP[a]).det()); });
+            MADD("dense_matrix_inv(" + A + ")", "dense_matrix_inv", [=](std::string &out) -> int {
+                CMat m(MP[a]), s;
+                int rc = dense_matrix_inv(s.p, m.p);
+                out = mkeys(s.p);
+                return rc;
+            }, [=]() -> std::string {
+                DenseMatrix D = core_of(MP[a]), R(MP[a].r, MP[a].c);
+                D.inv(R);
+                return mkeys(R);
+            });
+            MADD("dense_matrix_LU(" + A + ")", "dense_matrix_LU", [=](std::string &out) -> int {
+                CMat m(MP[a]), l, u;
+                int rc = dense_matrix_LU(l.p, u.p, m.p);
+                out = mkeys(l.p) + mkeys(u.p);
+                return rc;
+            }, [=]() -> std::string {
+                DenseMatrix D = core_of(MP[a]), L(MP[a].r, MP[a].c), U(MP[a].r, MP[a].c);
+                D.LU(L, U);
+                return mkeys(L) + mkeys(U);
+            });
+            MADD("dense_matrix_LDL(" + A + ")", "dense_matrix_LDL", [=](std::string &out) -> int {
+                CMat m(MP[a]), l, u;
+                int rc = dense_matrix_LDL(l.p, u.p, m.p);
+                out = mkeys(l.p) + mkeys(u.p);
+                return rc;
+            }, [=]() -> std::string {
+                DenseMatrix D = core_of(MP[a]), L(MP[a].r, MP[a].c), U(MP[a].r, MP[a].c);
+                D.LDL(L, U);
+                return mkeys(L) + mkeys(U);
+            });
+            MADD("dense_matrix_FFLU(" + A + ")", "dense_matrix_FFLU", [=](std::string &out) -> int {
+                CMat m(MP[a]), l;
+                int rc = dense_matrix_FFLU(l.p, m.p);
+                out = mkeys(l.p);
+                return rc;
+            }, [=]() -> std::string {
+                DenseMatrix D = core_of(MP[a]), L(MP[a].r, MP[a].c);
+                D.FFLU(L);
+                return mkeys(L);
+            });
+            MADD("dense_matrix_FFLDU(" + A + ")", "dense_matrix_FFLDU", [=](std::string &out) -> int {
+                CMat m(MP[a]), l, d, u;
+                int rc = dense_matrix_FFLDU(l.p, d.p, u.p, m.p);
+                out = mkeys(l.p) + mkeys(d.p) + mkeys(u.p);
+                return rc;
+            }, [=]() -> std::string {
+                DenseMatrix D = core_of(MP[a]), L(MP[a].r, MP[a].c), Dg(MP[a].r, MP[a].c), U(MP[a].r, MP[a].c);
+                D.FFLDU(L, Dg, U);
+                return mkeys(L) + mkeys(Dg) + mkeys(U);
+            });
+            for (int b = 0; b < nm; b++)
+                if (MP[b].c == 1 && MP[b].r == MP[a].r)
+                    MADD("dense_matrix_LU_solve(" + A + ", " + MP[b].name + ")", "dense_matrix_LU_solve", [=](std::string &out) -> int {
+                        CMat m(MP[a]), bb(MP[b]), s;
+                        int rc = dense_matrix_LU_solve(s.p, m.p, bb.p);
+                        out = mkeys(s.p);
+                        return rc;
+                    }, [=]() -> std::string {
+                        DenseMatrix D = core_of(MP[a]), Bm = core_of(MP[b]), X(MP[a].c, 1);
+                        D.LU_solve(Bm, X);
+                        return mkeys(X);
+                    });
+        }
+        MADD("dense_matrix_transpose(" + A + ")", "dense_matrix_transpose", [=](std::string &out) -> int {
+            CMat m(MP[a]), s;
+            int rc = dense_matrix_transpose(s.p, m.p);
+            out = mkeys(s.p);
+            return rc;
+        }, [=]() -> std::string {
+            DenseMatrix D = core_of(MP[a]), R(MP[a].c, MP[a].r);
+            D.transpose(R);
+            return mkeys(R);
+        });
+        MADD("dense_matrix_str/set/rows/cols(" + A + ")", "dense_matrix_str", [=](std::string &out) -> int {
+            CMat m(MP[a]), s;
+            int rc = dense_matrix_set(s.p, m.p);
+            out = take(dense_matrix_str(s.p)) + "|" + its(dense_matrix_rows(s.p)) + "x" + its(dense_matrix_cols(s.p)) + "|" + its(is_a_DenseMatrix(s.p)) + "|" + mkeys(s.p);
+            return rc;
+        }, [=]() -> std::string {
+            DenseMatrix D = core_of(MP[a]);
+            return D.__str__() + "|" + its(MP[a].r) + "x" + its(MP[a].c) + "|1|" + mkeys(D);
+        });
+        for (int b = 0; b < nm; b++) {
+            const std::string Bn = MP[b].name;
+            MADD("dense_matrix_eq(" + A + ", " + Bn + ")", "dense_matrix_eq", [=](std::string &out) -> int {
+                CMat m(MP[a]), n(MP[b]);
+                out = its(dense_matrix_eq(m.p, n.p));
+                return 0;
+            }, [=]() -> std::string { return its(MP[a].r == MP[b].r && MP[a].c == MP[b].c && mkeys(core_of(MP[a])) == mkeys(core_of(MP[b])) ? 1 : 0); });
+            if (MP[a].r == MP[b].r && MP[a].c == MP[b].c)
+                MADD("dense_matrix_add_matrix(" + A + ", " + Bn + ")", "dense_matrix_add_matrix", [=](std::string &out) -> int {
+                    CMat m(MP[a]), n(MP[b]), s;
+                    int rc = dense_matrix_add_matrix(s.p, m.p, n.p);
+                    out = mkeys(s.p);
+                    return rc;
+                }, [=]() -> std::string {
+                    DenseMatrix D = core_of(MP[a]), E2 = core_of(MP[b]), R(MP[a].r, MP[a].c);
+                    D.add_matrix(E2, R);
+                    return mkeys(R);
+                });
+            if (MP[a].c == MP[b].r)
+                MADD("dense_matrix_mul_matrix(" + A + ", " + Bn + ")", "dense_matrix_mul_matrix", [=](std::string &out) -> int {
+                    CMat m(MP[a]), n(MP[b]), s;
+                    int rc = dense_matrix_mul_matrix(s.p, m.p, n.p);
+                    out = mkeys(s.p);
+                    return rc;
+                }, [=]() -> std::string {
+                    DenseMatrix D = core_of(MP[a]), E2 = core_of(MP[b]), R(MP[a].r, MP[b].c);
+                    D.mul_matrix(E2, R);
+                    return mkeys(R);
+                });
+            if (MP[a].r == MP[b].r)
+                MADD("dense_matrix_row_join(" + A + ", " + Bn + ")", "dense_matrix_row_join", [=](std::string &out) -> int {
+                    CMat m(MP[a]), n(MP[b]);
+                    int rc = dense_matrix_row_join(m.p, n.p);
+                    out = mkeys(m.p);
+                    return rc;
+                }, [=]() -> std::string {
+                    // model: columns of B appended to the right of A
+                    std::string o = its(MP[a].r) + "x" + its(MP[a].c + MP[b].c) + "[";
+                    for (unsigned i = 0; i < MP[a].r; i++) {
+                        for (unsigned j = 0; j < MP[a].c; j++)
+                            o += kk(MP[a].e[i * MP[a].c + j]) + ";";
+                        for (unsigned j = 0; j < MP[b].c; j++)
+                            o += kk(MP[b].e[i * MP[b].c + j]) + ";";
+                    }
+                    return o + "]";
+                });
+            if (MP[a].c == MP[b].c)
+                MADD("dense_matrix_col_join(" + A + ", " + Bn + ")", "dense_matrix_col_join", [=](std::string &out) -> int {
+                    CMat m(MP[a]), n(MP[b]);
+                    int rc = dense_matrix_col_join(m.p, n.p);
+                    out = mkeys(m.p);
+                    return rc;
+                }, [=]() -> std::string {
+                    std::string o = its(MP[a].r + MP[b].r) + "x" + its(MP[a].c) + "[";
+                    for (auto &e : MP[a].e)
+                        o += kk(e) + ";";
+                    for (auto &e : MP[b].e)
+                        o += kk(e) + ";";
+                    return o + "]";
+                });
+            if (MP[a].c == 1 && MP[b].c == 1)
+                MADD("dense_matrix_jacobian(" + A + ", " + Bn + ")", "dense_matrix_jacobian", [=](std::string &out) -> int {
+                    CMat m(MP[a]), n(MP[b]), s(MP[a].r, MP[b].r);
+                    int rc = dense_matrix_jacobian(s.p, m.p, n.p);
+                    out = mkeys(s.p);
+                    return rc;
+                }, [=]() -> std::string {
+                    DenseMatrix D = core_of(MP[a]), X = core_of(MP[b]), R(MP[a].r, MP[b].r);
+                    jacobian(D, X, R);
+                    return mkeys(R);
+                });
+        }
+        std::vector<std::pair<std::string, B>> SC = {{"2", N(2)}, {"0", N(0)}, {"x", x}, {"oo", Inf}};
+        for (auto &sc : SC) {
+            B sv = sc.second;
+            MADD("dense_matrix_add_scalar(" + A + ", " + sc.first + ")", "dense_matrix_add_scalar", [=](std::string &out) -> int {
+                CMat m(MP[a]), s;
+                Hd h;
+                H(h.p) = sv;
+                int rc = dense_matrix_add_scalar(s.p, m.p, h.p);
+                out = mkeys(s.p);
+                return rc;
+            }, [=]() -> std::string {
+                DenseMatrix D = core_of(MP[a]), R(MP[a].r, MP[a].c);
+                D.add_scalar(sv, R);
+                return mkeys(R);
+            });
+            MADD("dense_matrix_mul_scalar(" + A + ", " + sc.first + ")", "dense_matrix_mul_scalar", [=](std::string &out) -> int {
+                CMat m(MP[a]), s;
+                Hd h;
+                H(h.p) = sv;
+                int rc = dense_matrix_mul_scalar(s.p, m.p, h.p);
+                out = mkeys(s.p);
+                return rc;
+            }, [=]() -> std::string {
+                DenseMatrix D = core_of(MP[a]), R(MP[a].r, MP[a].c);
+                D.mul_scalar(sv, R);
+                return mkeys(R);
+            });
+            MADD("dense_matrix_diff(" + A + ", " + sc.first + ")", "dense_matrix_diff", [=](std::string &out) -> int {
+                CMat m(MP[a]), s(MP[a].r, MP[a].c);
+                Hd h;
+                H(h.p) = sv;
+                int rc = dense_matrix_diff(s.p, m.p, h.p);
+                out = mkeys(s.p);
+                return rc;
+            }, [=]() -> std::string {
+                if (!is_a<Symbol>(*sv))
+                    throw CoreRefusal();
+                DenseMatrix D = core_of(MP[a]), R(MP[a].r, MP[a].c);
+                diff(D, rcp_static_cast<const Symbol>(sv), R);
+                return mkeys(R);
+            });
+        }
+        // element access, deletion, sub-matrices, resizing (in-range arguments)
+        for (unsigned i = 0; i < MP[a].r; i++)
+            for (unsigned j = 0; j < MP[a].c; j++)
+                MADD("dense_matrix_set_basic/get_basic(" + A + ", " + its(i) + ", " + its(j) + ", y)", "dense_matrix_set_basic", [=](std::string &out) -> int {
+                    CMat m(MP[a]);
+                    Hd h, g;
+                    symbol_set(h.p, "y");
+                    int rc = dense_matrix_get_basic(g.p, m.p, i, j);
+                    out = hk(g.p) + "|";
+                    if (rc == 0)
+                        rc = dense_matrix_set_basic(m.p, i, j, h.p);
+                    out += mkeys(m.p);
+                    return rc;
+                }, [=]() -> std::string {
+                    std::vector<B> e = MP[a].e;
+                    std::string o = kk(e[i * MP[a].c + j]) + "|" + its(MP[a].r) + "x" + its(MP[a].c) + "[";
+                    e[i * MP[a].c + j] = symbol("y");
+                    for (auto &q : e)
+                        o += kk(q) + ";";
+                    return o + "]";
+                });
+        for (unsigned k = 0; k < MP[a].r; k++)
+            MADD("dense_matrix_row_del(" + A + ", " + its(k) + ")", "dense_matrix_row_del", [=](std::string &out) -> int {
+                CMat m(MP[a]);
+                int rc = dense_matrix_row_del(m.p, k);
+                out = mkeys(m.p);
+                return rc;
+            }, [=]() -> std::string {
+                std::string o = its(MP[a].r - 1) + "x" + its(MP[a].r == 1 ? 0 : MP[a].c) + "[";
+                if (MP[a].r > 1)
+                    for (unsigned i = 0; i < MP[a].r; i++)
+                        for (unsigned j = 0; j < MP[a].c; j++)
+                            if (i != k)
+                                o += kk(MP[a].e[i * MP[a].c + j]) + ";";
+                return o + "]";
+            });
+        for (unsigned k = 0; k < MP[a].c; k++)
+            MADD("dense_matrix_col_del(" + A + ", " + its(k) + ")", "dense_matrix_col_del", [=](std::string &out) -> int {
+                CMat m(MP[a]);
+                int rc = dense_matrix_col_del(m.p, k);
+                out = mkeys(m.p);
+                return rc;
+            }, [=]() -> std::string {
+                std::string o = its(MP[a].c == 1 ? 0 : MP[a].r) + "x" + its(MP[a].c - 1) + "[";
+                if (MP[a].c > 1)
+                    for (unsigned i = 0; i < MP[a].r; i++)
+                        for (unsigned j = 0; j < MP[a].c; j++)
+                            if (j != k)
+                                o += kk(MP[a].e[i * MP[a].c + j]) + ";";
+                return o + "]";
+            });
+        for (unsigned r1 = 0; r1 < MP[a].r; r1++)
+            for (unsigned r2 = r1; r2 < MP[a].r; r2++)
+                for (unsigned c1 = 0; c1 < MP[a].c; c1++)
+                    for (unsigned c2 = c1; c2 < MP[a].c; c2++)
+                        for (unsigned st = 1; st <= 2; st++) {
+                            if (st == 2 && !(r2 - r1 >= 1 || c2 - c1 >= 1))
+                                continue;
+                            MADD("dense_matrix_submatrix(" + A + ", " + its(r1) + "," + its(c1) + "," + its(r2) + "," + its(c2) + ", step " + its(st) + "," + its(st) + ")",
+                                 st == 1 ? "dense_matrix_submatrix" : "dense_matrix_submatrix[step>1]", [=](std::string &out) -> int {
+                                     CMat m(MP[a]), s;
+                                     int rc = dense_matrix_submatrix(s.p, m.p, r1, c1, r2, c2, st, st);
+                                     out = mkeys(s.p);
+                                     return rc;
+                                 }, [=]() -> std::string {
+                                     // model: rows r1..r2 and columns c1..c2 taken with the step sizes
+                                     unsigned nr = (r2 - r1) / st + 1, nc = (c2 - c1) / st + 1;
+                                     std::string o = its(nr) + "x" + its(nc) + "[";
+                                     for (unsigned i = r1; i <= r2; i += st)
+                                         for (unsigned j = c1; j <= c2; j += st)
+                                             o += kk(MP[a].e[i * MP[a].c + j]) + ";";
+                                     return o + "]";
+                                 });
+                        }
+    }
+    for (unsigned r = 1; r <= 3; r++)
+        for (unsigned cc = 1; cc <= 3; cc++) {
+            MADD("dense_matrix_ones/zeros(" + its(r) + "," + its(cc) + ")", "dense_matrix_ones", [=](std::string &out) -> int {
+                CMat s, z;
+                int rc = dense_matrix_ones(s.p, r, cc);
+                if (rc == 0)
+                    rc = dense_matrix_zeros(z.p, r, cc);
+                out = mkeys(s.p) + mkeys(z.p);
+                return rc;
+            }, [=]() -> std::string {
+                std::string o = its(r) + "x" + its(cc) + "[", z = o;
+                for (unsigned i = 0; i < r * cc; i++) {
+                    o += "I:1;";
+                    z += "I:0;";
+                }
+                return o + "]" + z + "]";
+            });
+            for (int k = -2; k <= 2; k++)
+                MADD("dense_matrix_eye(" + its(r) + "," + its(cc) + "," + its(k) + ")", "dense_matrix_eye", [=](std::string &out) -> int {
+                    CMat s;
+                    int rc = dense_matrix_eye(s.p, r, cc, k);
+                    out = mkeys(s.p);
+                    return rc;
+                }, [=]() -> std::string {
+                    std::string o = its(r) + "x" + its(cc) + "[";
+                    for (int i = 0; i < (int)r; i++)
+                        for (int j = 0; j < (int)cc; j++)
+                            o += (j - i == k) ? "I:1;" : "I:0;";
+                    return o + "]";
+                });
+        }
+    for (int len = 1; len <= 2; len++)
+        for (int k = -2; k <= 2; k++)
+            MADD("dense_matrix_diag([x,y][:" + its(len) + "], " + its(k) + ")", "dense_matrix_diag", [=](std::string &out) -> int {
+                Hd hx, hy;
+                symbol_set(hx.p, "x");
+                symbol_set(hy.p, "y");
+                CVec v;
+                vecbasic_push_back(v.p, hx.p);
+                if (len == 2)
+                    vecbasic_push_back(v.p, hy.p);
+                CMat s;
+                int rc = dense_matrix_diag(s.p, v.p, k);
+                out = mkeys(s.p);
+                return rc;
+            }, [=]() -> std::string {
+                int n = len + std::abs(k);
+                std::string o = its(n) + "x" + its(n) + "[";
+                const char *nm2[] = {"S:x;", "S:y;"};
+                for (int i = 0; i < n; i++)
+                    for (int j = 0; j < n; j++) {
+                        int d = k >= 0 ? i : j; // position along the diagonal
+                        o += (j - i == k && d < len) ? nm2[d] : "I:0;";
+                    }
+                return o + "]";
+            });
+    // sparse matrices: every sequence of <= 3 assignments into a 2x3 matrix vs a std::map model
+    {
+        std::vector<B> SV = {N(0), N(1), x};
+        const char *SVN[] = {"0", "1", "x"};
+        const int NOP = 18;
+        for (int len = 1; len <= 3; len++) {
+            long long tot = 1;
+            for (int d = 0; d < len; d++)
+                tot *= NOP;
+            for (long long s = 0; s < tot; s++) {
+                std::vector<int> ops;
+                long long t = s;
+                for (int d = 0; d < len; d++) {
+                    ops.push_back(t % NOP);
+                    t /= NOP;
+                }
+                std::string d = "sparse 2x3";
+                for (int op : ops)
+                    d += "; set(" + its(op / 3 / 3) + "," + its(op / 3 % 3) + "," + SVN[op % 3] + ")";
+                MADD(d, "sparse_matrix_set_basic/get_basic", [=](std::string &out) -> int {
+                    CSparseMatrix *m = sparse_matrix_new(), *m2 = sparse_matrix_new();
+                    sparse_matrix_init(m);
+                    sparse_matrix_rows_cols(m, 2, 3);
+                    sparse_matrix_rows_cols(m2, 2, 3);
+                    Hd h;
+                    int rc = 0;
+                    for (int op : ops) {
+                        H(h.p) = SV[op % 3];
+                        rc |= sparse_matrix_set_basic(m, op / 9, op / 3 % 3, h.p);
+                        rc |= sparse_matrix_set_basic(m2, op / 9, op / 3 % 3, h.p);
+                    }
+                    out = "";
+                    for (unsigned i = 0; i < 2; i++)
+                        for (unsigned j = 0; j < 3; j++) {
+                            rc |= sparse_matrix_get_basic(h.p, m, i, j);
+                            out += hk(h.p) + ";";
+                        }
+                    out += "|eq=" + its(sparse_matrix_eq(m, m2)) + "|is=" + its(is_a_SparseMatrix(m)) + "|" + take(sparse_matrix_str(m));
+                    sparse_matrix_free(m);
+                    sparse_matrix_free(m2);
+                    return rc;
+                }, [=]() -> std::string {
+                    std::map<std::pair<int, int>, B> model;
+                    CSRMatrix M(2, 3);
+                    for (int op : ops) {
+                        model[{op / 9, op / 3 % 3}] = SV[op % 3];
+                        M.set(op / 9, op / 3 % 3, SV[op % 3]);
+                    }
+                    std::string o;
+                    for (int i = 0; i < 2; i++)
+                        for (int j = 0; j < 3; j++) {
+                            auto it = model.find({i, j});
+                            o += (it == model.end() ? std::string("I:0") : kk(it->second)) + ";";
+                        }
+                    return o + "|eq=1|is=1|" + M.__str__();
+                });
+            }
+        }
+    }
+#undef MADD
+}
+
+static void run_matrix_cases()
+{
+    CaseSet cs;
+    cs.name = "matrix";
+    cs.n = MC.size();
+    cs.hang_s = 10;
+    cs.counter_names = {"matrix_calls_success_equal", "matrix_calls_error_code_and_core_throws", "matrix_calls_error_code_but_core_succeeds(allowed)"};
+    cs.desc = [&](long long i) { return MC[i].desc; };
+    cs.crash_sig = [&](long long i, const std::string &oc) { return std::string(oc.find("hang") != std::string::npos ? "hang:" : "crash:") + MC[i].sig; };
+    cs.body = [&](long long i, Ctx &c) {
+        const MCase &m = MC[i];
+        c.eval();
+        std::string got, want, what;
+        int rc = 0, krc = 0;
+        try {
+            rc = m.c(got);
+        } catch (std::exception &e) {
+            c.violation("escape:" + m.sig, m.desc + ": a C++ exception escaped from the C API: " + std::string(e.what()).substr(0, 200));
+            return;
+        }
+        try {
+            want = m.k();
+        } catch (std::exception &e) {
+            krc = 1;
+            what = e.what();
+        }
+        if (rc != 0) {
+            c.count(krc ? 1 : 2);
+            c.outcome(std::string(krc ? "err:" : "c-error-core-ok:") + m.sig);
+            c.nontrivial();
+            return;
+        }
+        if (got.find("<NULL>") != std::string::npos) {
+            c.violation("null-entry:" + m.sig, m.desc + ": returned success but the result has entries that hold no object: " + got.substr(0, 300) + " (expected " + want.substr(0, 300) + ")");
+            return;
+        }
+        if (krc) {
+            c.violation("success-but-core-throws:" + m.sig, m.desc + ": C call succeeded with " + got.substr(0, 200) + " but the core call throws " + what.substr(0, 200));
+            return;
+        }
+        if (got != want) {
+            c.violation("mismatch:" + m.sig, m.desc + ": C API gives " + got.substr(0, 400) + " but the core API / model gives " + want.substr(0, 400));
+            return;
+        }
+        c.count(0);
+        c.nontrivial();
+        c.outcome("ok:" + m.sig + ":" + got.substr(0, 3));
+        if (i % 211 == 0)
+            c.sample("{\"call\":" + jstr(m.desc) + ",\"result\":" + jstr(got.substr(0, 120)) + "}");
+    };
+    run_cases(cs);
+}
+
+// ---------------------------------------------------------------- Expression operators vs core functions, all ordered pairs of the pool
+static std::string obs(const std::function<std::string()> &f)
+{
+    try {
+        return f();
+    } catch (SymEngineException &e) {
+        return "throws:" + its(e.error_code());
+    } catch (std::exception &e) {
+        return std::string("throws-std");
+    }
+}
+static void run_expression_pairs()
+{
+    const long long n = NPOOL;
+    B x = symbol("x");
+    struct Op {
+        const char *name;
+        std::function<std::string(const B &, const B &)> wrap, core;
+    };
+    auto K = [](const Expression &e) { return kk(e.get_basic()); };
+    std::vector<Op> OPS = {
+        {"a+b", [&](const B &a, const B &b) { return K(Expression(a) + Expression(b)); }, [](const B &a, const B &b) { return kk(add(a, b)); }},
+        {"a-b", [&](const B &a, const B &b) { return K(Expression(a) - Expression(b)); }, [](const B &a, const B &b) { return kk(sub(a, b)); }},
+        {"a*b", [&](const B &a, const B &b) { return K(Expression(a) * Expression(b)); }, [](const B &a, const B &b) { return kk(mul(a, b)); }},
+        {"a/b", [&](const B &a, const B &b) { return K(Expression(a) / Expression(b)); }, [](const B &a, const B &b) { return kk(div(a, b)); }},
+        {"pow(a,b)", [&](const B &a, const B &b) { return K(pow(Expression(a), Expression(b))); }, [](const B &a, const B &b) { return kk(pow(a, b)); }},
+        {"rcp+b", [&](const B &a, const B &b) { return K(a + Expression(b)); }, [](const B &a, const B &b) { return kk(add(a, b)); }},
+        {"a-rcp", [&](const B &a, const B &b) { return K(Expression(a) - b); }, [](const B &a, const B &b) { return kk(sub(a, b)); }},
+        {"rcp*b", [&](const B &a, const B &b) { return K(a * Expression(b)); }, [](const B &a, const B &b) { return kk(mul(a, b)); }},
+        {"rcp/b", [&](const B &a, const B &b) { return K(a / Expression(b)); }, [](const B &a, const B &b) { return kk(div(a, b)); }},
+        {"a+=b",
+         [&](const B &a, const B &b) {
+             Expression e(a);
+             e += Expression(b);
+             return K(e);
+         },
+         [](const B &a, const B &b) { return kk(add(a, b)); }},
+        {"a-=b",
+         [&](const B &a, const B &b) {
+             Expression e(a);
+             e -= Expression(b);
+             return K(e);
+         },
+         [](const B &a, const B &b) { return kk(sub(a, b)); }},
+        {"a*=b",
+         [&](const B &a, const B &b) {
+             Expression e(a);
+             e *= b;
+             return K(e);
+         },
+         [](const B &a, const B &b) { return kk(mul(a, b)); }},
+        {"a/=b",
+         [&](const B &a, const B &b) {
+             Expression e(a);
+             e /= Expression(b);
+             return K(e);
+         },
+         [](const B &a, const B &b) { return kk(div(a, b)); }},
+        {"a==b", [&](const B &a, const B &b) { return its(Expression(a) == Expression(b)) + its(Expression(a) == b) + its(unified_eq(Expression(a), Expression(b))); },
+         [](const B &a, const B &b) {
+             std::string r = its(eq(*a, *b));
+             return r + r + r;
+         }},
+        {"a!=b", [&](const B &a, const B &b) { return its(Expression(a) != Expression(b)) + its(Expression(a) != b); },
+         [](const B &a, const B &b) {
+             std::string r = its(neq(*a, *b));
+             return r + r;
+         }},
+        {"a.diff(b)", [&](const B &a, const B &b) { return is_a<Symbol>(*b) ? K(Expression(a).diff(rcp_static_cast<const Symbol>(b))) : K(Expression(a).diff(b)); },
+         [](const B &a, const B &b) { return is_a<Symbol>(*b) ? kk(a->diff(rcp_static_cast<const Symbol>(b))) : kk(sdiff(a, b)); }},
+        {"a.subs({x:b})",
+         [&](const B &a, const B &b) {
+             map_basic_basic m;
+             m[x] = b;
+             return K(Expression(a).subs(m));
+         },
+         [&](const B &a, const B &b) {
+             map_basic_basic m;
+             m[x] = b;
+             return kk(a->subs(m));
+         }},
+        {"unified_compare(a,b)", [&](const B &a, const B &b) { return its(unified_compare(Expression(a), Expression(b))); },
+         [](const B &a, const B &b) { return its(unified_compare(a, b)); }},
+    };
+    struct Un {
+        const char *name;
+        std::function<std::string(const B &)> wrap, core;
+    };
+    std::vector<Un> UNS = {
+        {"-a", [&](const B &a) { return K(-Expression(a)); }, [](const B &a) { return kk(neg(a)); }},
+        {"expand(a)", [&](const B &a) { return K(expand(Expression(a))); }, [](const B &a) { return kk(expand(a)); }},
+        {"stream<<a",
+         [&](const B &a) {
+             std::ostringstream s;
+             s << Expression(a);
+             return s.str();
+         },
+         [](const B &a) { return a->__str__(); }},
+        {"(double)a", [&](const B &a) { return hexd((double)Expression(a)); }, [](const B &a) { return hexd(eval_double(*a)); }},
+        {"(complex<double>)a",
+         [&](const B &a) {
+             std::complex<double> z = (std::complex<double>)Expression(a);
+             return hexd(z.real()) + "," + hexd(z.imag());
+         },
+         [](const B &a) {
+             std::complex<double> z = eval_complex_double(*a);
+             return hexd(z.real()) + "," + hexd(z.imag());
+         }},
+        {"Expression(str(a))", [&](const B &a) { return K(Expression(a->__str__())); }, [](const B &a) { return kk(parse(a->__str__())); }},
+        {"copy/move/assign",
+         [&](const B &a) {
+             Expression e(a), f(e), g;
+             g = f;
+             Expression h(std::move(f));
+             Expression k2;
+             k2 = std::move(h);
+             const B &r = k2;
+             const Basic &br = g;
+             return K(k2) + "|" + kk(r) + "|" + key(br);
+         },
+         [](const B &a) { return kk(a) + "|" + kk(a) + "|" + kk(a); }},
+    };
+    const long long nb = OPS.size(), nu = UNS.size();
+    CaseSet cs;
+    cs.name = "expression";
+    cs.n = n * n * nb + n * nu + 1;
+    cs.hang_s = 10;
+    cs.counter_names = {"expression_ops_equal", "expression_ops_both_throw"};
+    cs.desc = [&](long long i) {
+        if (i < n * n * nb)
+            return std::string(OPS[i % nb].name) + " with a=" + SS.S[i / nb / n].recipe + ", b=" + SS.S[i / nb % n].recipe;
+        if (i < n * n * nb + n * nu) {
+            long long j = i - n * n * nb;
+            return std::string(UNS[j % nu].name) + " with a=" + SS.S[j / nu].recipe;
+        }
+        return std::string("Expression constructors from C++ scalars");
+    };
+    cs.crash_sig = [&](long long i, const std::string &oc) {
+        std::string cls = oc.find("hang") != std::string::npos ? "hang" : "crash";
+        if (i < n * n * nb)
+            return cls + ":Expression:" + OPS[i % nb].name + "(" + tname(SS.S[i / nb / n].e) + "," + tname(SS.S[i / nb % n].e) + ")";
+        if (i < n * n * nb + n * nu)
+            return cls + ":Expression:" + UNS[(i - n * n * nb) % nu].name + "(" + tname(SS.S[(i - n * n * nb) / nu].e) + ")";
+        return cls + ":Expression:constructors";
+    };
+    cs.body = [&](long long i, Ctx &c) {
+        limit_memory();
+        std::string got, want, name, types;
+        c.eval();
+        if (i < n * n * nb) {
+            const Op &op = OPS[i % nb];
+            const B &a = SS.S[i / nb / n].e, &b = SS.S[i / nb % n].e;
+            got = obs([&] { return op.wrap(a, b); });
+            want = obs([&] { return op.core(a, b); });
+            name = op.name;
+            types = "(" + tname(a) + "," + tname(b) + ")";
+        } else if (i < n * n * nb + n * nu) {
+            long long j = i - n * n * nb;
+            const Un &op = UNS[j % nu];
+            const B &a = SS.S[j / nu].e;
+            got = obs([&] { return op.wrap(a); });
+            want = obs([&] { return op.core(a); });
+            name = op.name;
+            types = "(" + tname(a) + ")";
+        } else {
+            name = "constructors";
+            got = obs([&] {
+                return K(Expression()) + K(Expression(7)) + K(Expression(-3L)) + K(Expression(2.5)) + K(Expression(std::complex<double>(1, 2))) + K(Expression(integer_class(12)))
+                       + K(Expression(rational_class(3, 4))) + K(Expression(std::string("x + 1")));
+            });
+            want = "I:0I:7I:-3D:" + hexd(2.5) + "Z:" + hexd(1.0) + "," + hexd(2.0) + "I:12Q:3/4" + kk(add(x, integer(1)));
+        }
+        if (got != want) {
+            c.violation("expression:" + name + types, cs.desc(i) + ": Expression gives " + got.substr(0, 300) + " but the core function gives " + want.substr(0, 300));
+            return;
+        }
+        if (got.rfind("throws", 0) == 0)
+            c.count(1);
+        else {
+            c.count(0);
+            c.nontrivial();
+        }
+        c.outcome(name + ":" + got.substr(0, got.find_first_of(":(")));
+        if (i % 3001 == 0)
+            c.sample("{\"expression_op\":" + jstr(cs.desc(i)) + ",\"result\":" + jstr(got.substr(0, 100)) + "}");
+    };
+    run_cases(cs);
+}
+
+int main(int argc, char **argv)
+{
+    init(argc, argv, "C42");
+    bool thorough = opts().thorough();
+    build_menu();
+    build_pool();
+    Run &R = run();
+
+    // ---- depth 1: every menu function x every valid argument tuple of the pool x every aliasing mode
+    Layer L1;
+    for (size_t f = 0; f < FN.size(); f++) {
+        Plan p;
+        p.fn = (int)f;
+        for (int cls : FN[f].in) {
+            std::vector<int> cand;
+            if (FN[f].small) {
+                for (int s : SMALL)
+                    if (in_class(cls, *SS.S[s].e))
+                        cand.push_back(s);
+            } else
+                for (int s = 0; s < NPOOL; s++)
+                    if (in_class(cls, *SS.S[s].e))
+                        cand.push_back(s);
+            p.cand.push_back(cand);
+        }
+        p.modes = 1 + (FN[f].nout > 0 ? FN[f].nout * (int)FN[f].in.size() : 0);
+        L1.add(p);
+    }
+    std::set<long long> bad1;
+    run_layer(L1, "calls-depth1", K_CALLS_D1, &bad1);
+    R.counters["menu_functions"] = FN.size();
+    R.counters["pool_handles"] = NPOOL;
+    std::string bound = "depth 1: " + std::to_string(FN.size()) + " menu entries x all valid argument tuples of a " + std::to_string(NPOOL) + "-handle pool x all output/input aliasings ("
+                        + std::to_string(L1.total) + " calls)";
+
+    // ---- containers, matrices, Expression
+    int cdepth = thorough ? 4 : 3;
+    if (!past_deadline())
+        run_vec_sequences(cdepth);
+    if (!past_deadline())
+        run_set_sequences(cdepth);
+    if (!past_deadline())
+        run_map_sequences(cdepth);
+    bound += "; CVecBasic/CSetBasic/CMapBasicBasic: all op sequences of length <= " + std::to_string(cdepth);
+    build_matrix_cases();
+    if (!past_deadline())
+        run_matrix_cases();
+    bound += "; " + std::to_string(MC.size()) + " dense/sparse matrix calls";
+    if (!past_deadline())
+        run_expression_pairs();
+    bound += "; Expression operators on all ordered pairs of the pool";
+
+    // ---- depth 2: the restricted menu on every distinct result of a depth-1 call
+    if (!past_deadline()) {
+        // states: distinct successful results of depth-1 calls that were executed safely (quarantine)
+        for (long long i = 0; i < L1.total; i++) {
+            if (bad1.count(i))
+                continue;
+            std::vector<int> a;
+            int mode;
+            const Plan &p = L1.decode(i, a, mode);
+            const Fn &f = FN[p.fn];
+            if (mode != 0 || f.nout == 0)
+                continue;
+            if (!thorough && !f.d2)
+                continue; // quick: successors of the restricted menu only
+            std::vector<B> args, out(f.nout);
+            for (int k : a)
+                args.push_back(SS.S[k].e);
+            XS xs;
+            try {
+                f.k(out, args, xs);
+            } catch (...) {
+                continue;
+            }
+            for (auto &o : out)
+                if (!o.is_null())
+                    SS.add(o, case_desc(L1, i), 1);
+        }
+        R.counters["states_after_depth1"] = SS.size();
+        std::vector<int> fresh;
+        for (int s = (int)NPOOL; s < (int)SS.size(); s++)
+            fresh.push_back(s);
+        Layer L2;
+        for (size_t f = 0; f < FN.size(); f++) {
+            if (!FN[f].d2 || FN[f].in.empty())
+                continue;
+            int nin = FN[f].in.size();
+            // the new state in one position, pool handles (reduced pool in quick) in the others
+            for (int pos = 0; pos < nin; pos++) {
+                Plan p;
+                p.fn = (int)f;
+                p.modes = 1;
+                bool ok = true;
+                for (int q = 0; q < nin; q++) {
+                    std::vector<int> cand;
+                    if (q == pos) {
+                        for (int s : fresh)
+                            if (in_class(FN[f].in[q], *SS.S[s].e))
+                                cand.push_back(s);
+                    } else if (thorough) {
+                        for (int s = 0; s < NPOOL; s++)
+                            if (in_class(FN[f].in[q], *SS.S[s].e))
+                                cand.push_back(s);
+                    } else
+                        for (int s : SMALL)
+                            if (in_class(FN[f].in[q], *SS.S[s].e))
+                                cand.push_back(s);
+                    if (cand.empty())
+                        ok = false;
+                    p.cand.push_back(cand);
+                }
+                if (ok)
+                    L2.add(p);
+            }
+        }
+        run_layer(L2, "calls-depth2", K_CALLS_D2, nullptr);
+        bound += "; depth 2: restricted menu (" + std::to_string(L2.plans.size()) + " function/position plans) with one argument ranging over the " + std::to_string(fresh.size())
+                 + " distinct results of depth-1 calls (" + std::to_string(L2.total) + " calls)";
+    }
+    R.states = SS.size();
+    R.transitions = R.evaluations;
+    R.bound_completed = bound;
+    R.rule = "E2 over handles: every exported C function that can be driven generically (menu entries fix scalar/string parameters) is called inside a C++ try on valid handles "
+             "(type-restricted accessors only on handles of the documented type; indices in range; matrix shapes compatible) for every argument tuple of the pool; an exception "
+             "reaching the driver, a crash, a null output after success, a modified input, or success with a result different from the independently written core call is a "
+             "violation; an error code is accepted. Containers: all op sequences vs std::vector/set/map of structural keys. distinct_nontrivial = calls that returned an error "
+             "code or produced an object different from their first input.";
+    R.assumptions = {"structural key (core/key.h) decides equality of results",
+                     "the corresponding core call per C function is written from the header documentation, not from cwrapper.cpp",
+                     "an error code is always an acceptable outcome (property statement); it is counted when the core call succeeds",
+                     "out-of-range indices, mismatched matrix shapes and handles of the wrong type are outside 'valid handles' and are not exercised",
+                     "basic_parse inputs that crash the parser (C18) and corrupted basic_loads buffers (C20) are left to those properties",
+                     "real_mpfr_*/complex_mpc*/llvm_* functions are not compiled in the plain configuration"};
+    return R.finish();
+}
